@@ -7,8 +7,10 @@ package rules
 
 import (
 	"fmt"
+	"go/constant"
 	"go/token"
 	"go/types"
+	"sort"
 	"strings"
 
 	"golang.org/x/tools/go/ssa"
@@ -162,6 +164,9 @@ type c04Preds struct {
 	tripper  *types.Interface // net/http.RoundTripper
 	mustTerm map[*ssa.Function]bool
 	mayFwd   map[*ssa.Function]bool
+	mayTerm  map[*ssa.Function]bool // some path passes a terminating call
+	scope    map[*ssa.Function]bool // the functions of the forwarding packages
+	sigs     map[*ssa.Function]*c04TermSig
 }
 
 func c04IsNamed(t types.Type, full string) bool { return eng.TypeName(t) == full }
@@ -232,11 +237,30 @@ func (p *c04Preds) baseTerm(ci ssa.CallInstruction) bool {
 	return false
 }
 
+// c04Callee returns the function a call runs and the arguments bound to its parameters
+// (receiver first): the static callee, or — for a call of a method value (`fail :=
+// d.responseError; fail(err, w, req, reason)`) — the method, with the bound receiver in front.
+func c04Callee(w *eng.World, ci ssa.CallInstruction) (*ssa.Function, []ssa.Value) {
+	f := eng.CalleeFn(ci)
+	if f == nil {
+		return nil, nil
+	}
+	args := ci.Common().Args
+	if f.Synthetic != "" && f.Blocks != nil {
+		if mc, ok := ci.Common().Value.(*ssa.MakeClosure); ok && len(mc.Bindings) == 1 {
+			if m := w.FuncOfValue(mc); m != nil && m != f && m.Signature.Recv() != nil {
+				return m, append([]ssa.Value{mc.Bindings[0]}, args...)
+			}
+		}
+	}
+	return f, args
+}
+
 func (p *c04Preds) isTerm(ci ssa.CallInstruction) bool {
 	if p.baseTerm(ci) {
 		return true
 	}
-	if f := eng.CalleeFn(ci); f != nil && p.mustTerm[f] {
+	if f, _ := c04Callee(p.c.W, ci); f != nil && p.mustTerm[f] {
 		return true
 	}
 	return false
@@ -265,7 +289,7 @@ func (p *c04Preds) isFwd(ci ssa.CallInstruction) bool {
 	if p.baseFwd(ci) {
 		return true
 	}
-	if f := eng.CalleeFn(ci); f != nil && p.mayFwd[f] {
+	if f, _ := c04Callee(p.c.W, ci); f != nil && p.mayFwd[f] {
 		return true
 	}
 	return false
@@ -318,7 +342,11 @@ func (p *c04Preds) termLabel(ci ssa.CallInstruction) string {
 // mustTerm = functions every path of which passes a terminating call (so calling them
 // terminates), mayFwd = functions that contain a forwarding call on some path.
 func c04NewPreds(c *eng.Ctx, funcs []*ssa.Function) *c04Preds {
-	p := &c04Preds{c: c, mustTerm: map[*ssa.Function]bool{}, mayFwd: map[*ssa.Function]bool{}}
+	p := &c04Preds{c: c, mustTerm: map[*ssa.Function]bool{}, mayFwd: map[*ssa.Function]bool{}, mayTerm: map[*ssa.Function]bool{},
+		scope: map[*ssa.Function]bool{}, sigs: map[*ssa.Function]*c04TermSig{}}
+	for _, fn := range funcs {
+		p.scope[fn] = true
+	}
 	p.handler = c.W.Interface("net/http", "Handler")
 	p.tripper = c.W.Interface("net/http", "RoundTripper")
 	if p.handler == nil || p.tripper == nil {
@@ -338,6 +366,19 @@ func c04NewPreds(c *eng.Ctx, funcs []*ssa.Function) *c04Preds {
 				if has && eng.ReachFromEntry(fn, eng.PathQuery{Target: eng.IsExit, Avoid: p.termIns}) == nil {
 					p.mustTerm[fn] = true
 					changed = true
+				}
+			}
+			if !p.mayTerm[fn] {
+				for _, ci := range eng.Calls(fn) {
+					if _, plain := ci.(*ssa.Call); !plain {
+						continue
+					}
+					f, _ := c04Callee(p.c.W, ci)
+					if p.isTerm(ci) || (f != nil && p.mayTerm[f]) {
+						p.mayTerm[fn] = true
+						changed = true
+						break
+					}
 				}
 			}
 			if !p.mayFwd[fn] {
@@ -394,8 +435,8 @@ var c04Packages = []string{pkgFilters, pkgDispatcher, pkgRevProxy, pkgResponse}
 
 func c04(c *eng.Ctx) {
 	defer c04Transparent(c)
-	c.Rule("R1", "terminate ⇒ not forwarded: in every function and closure of the filters, dispatcher, reverse-proxy and response packages no CFG path leads from a terminating call (TerminateWithError, responseError, responsewriters.InternalError/Forbidden/ErrorNegotiated, http.Error, the proxy error handler, WriteHeader(const)) to a forwarding call (next handler's ServeHTTP, proxy ServeHTTP, RoundTrip); in a filter nothing else is written to the response after it", 41)
-	c.Rule("R2", "reason ↔ status: refused TryAcquire ⇒ NewTooManyRequests; Pop error, cluster not proxied (dispatcher and WithUpstreamInfo) ⇒ NewServiceUnavailable; refused impersonation ⇒ responsewriters.Forbidden; each refusal edge answers before any exit or forward; the error travels unchanged to TerminateWithError, which sets Retry-After for 503 and for 429 with a suggested delay before ErrorNegotiated writes the Status", 11)
+	c.Rule("R1", "terminate ⇒ not forwarded: in every function and closure of the filters, dispatcher, reverse-proxy and response packages no CFG path leads from a terminating call (TerminateWithError, responseError, responsewriters.InternalError/Forbidden/ErrorNegotiated, http.Error, the proxy error handler, WriteHeader(const)) to a forwarding call (next handler's ServeHTTP, proxy ServeHTTP, RoundTrip), nor from a call of a helper that answers on some of its paths on the paths on which its result says so; in a filter nothing else is written to the response after it. Vacuity guard: the distinct kinds of answer recognised (package × answering call × API-status constructor), not the number of sites, which legitimately changes when duplicate refusal blocks are merged", c04MinAnswerKinds+1)
+	c.Rule("R2", "reason ↔ status, by forcing the reason-carrying value wherever it is computed and enumerating the paths of its handler with helpers interpreted: refused TryAcquire ⇒ NewTooManyRequests; Pop error, cluster not proxied (dispatcher and the host-resolving filter) ⇒ NewServiceUnavailable; refused impersonation ⇒ responsewriters.Forbidden; each refusal answers before any exit or forward and forwards nothing afterwards; the error travels unchanged through every answering helper to the function that writes the Status, which sets Retry-After for 503 and for 429 with a suggested delay before ErrorNegotiated writes the Status", 9)
 	c.Rule("R3", "write allow-list: of the outbound http.Request only Header (clone / empty when nil), URL, Body (nil under ContentLength==0, or a delegating reader), Close=false are stored; the relayed status is res.StatusCode, headers go through copyHeader(rw.Header(), res.Header) after deleting only hop-by-hop keys, the body through copyResponse(rw, res.Body); end-to-end request headers are only touched for the allow-listed keys", 23)
 	c.Rule("R4", "URL rebuild is complete: a url.URL whose Path is taken from the incoming request URL (or copied field by field from another URL on the forwarding path) carries RawPath from the same source on the same paths, and its RawQuery derives from the incoming query", 4)
 
@@ -430,6 +471,12 @@ func c04R1(c *eng.Ctx, p *c04Preds, funcs []*ssa.Function) {
 		}
 		return sp
 	}
+	// the kinds of answer the rule recognised, independent of where and how often they are
+	// written: package × answering call × constructor of the error (resolved through every
+	// calling context of the site). Merging duplicate refusal blocks, moving them into helpers
+	// or removing pass-through helpers leaves this set unchanged, whereas the number of sites
+	// changes; it is the vacuity guard of the rule.
+	classes := map[string]bool{}
 	for _, fn := range funcs {
 		inFilters := fn.Pkg != nil && fn.Pkg.Pkg.Path() == pkgFilters
 		for _, r := range c04TerminateNotForwarded(fn, spec(inFilters)) {
@@ -439,8 +486,31 @@ func c04R1(c *eng.Ctx, p *c04Preds, funcs []*ssa.Function) {
 			default:
 				c.Check("R1", fn, r.construct, r.site.Pos(), r.ok, r.detail)
 			}
+			if fn.Pkg != nil {
+				for _, ch := range c.W.UpChains(fn, nil) {
+					for _, a := range p.c04Answers(r.site, 3, c04InChain(ch)) {
+						// only the API-status constructors tell kinds apart (404/429/503 …); where
+						// an arbitrary Go error comes from is not a property of the answer
+						// (a site whose error may come from several constructors counts for each)
+						n := 0
+						for _, k := range a.ctors {
+							if strings.HasPrefix(k, c04PkgAPIErrors+".") {
+								n++
+								classes[shortName(fn.Pkg.Pkg.Path())+": "+p.termLabel(a.site)+"("+strings.TrimPrefix(k, c04PkgAPIErrors+".")+")"] = true
+							}
+						}
+						if n == 0 {
+							classes[shortName(fn.Pkg.Pkg.Path())+": "+p.termLabel(a.site)+"()"] = true
+						}
+					}
+				}
+			}
 		}
+		c04MixedSites(c, p, fn)
 	}
+	c.Note("C04.R1 answer kinds (%d): %s", len(classes), strings.Join(c04SortedKeys(classes), "; "))
+	c.Check("R1", nil, "kinds of terminating answer recognised", 0, len(classes) >= c04MinAnswerKinds,
+		fmt.Sprintf("the rule recognised %d distinct kinds of answer (package × answering call × error constructor), at least %d were confirmed by hand on the pinned tree: %s", len(classes), c04MinAnswerKinds, strings.Join(c04SortedKeys(classes), "; ")))
 	if c.Thorough() {
 		// sweep: un-anchored handlers elsewhere in the repository
 		anch := map[*ssa.Function]bool{}
@@ -460,306 +530,919 @@ func c04R1(c *eng.Ctx, p *c04Preds, funcs []*ssa.Function) {
 	}
 }
 
+// c04MinAnswerKinds is the number of distinct kinds of terminating answer confirmed by hand.
+const c04MinAnswerKinds = 14
+
+// c04TermSig summarises a helper that answers the request on some of its paths only: which
+// of its results tells the caller that the request has been answered.
+type c04TermSig struct {
+	known    bool // a result separates the answering paths from the others
+	idx      int  // its index
+	byBool   bool // it is a boolean flag (else: nil-ness of the result)
+	termBool bool // the flag's value on answering paths
+	termNil  bool // answering paths return nil (else: non-nil)
+}
+
+// termSig enumerates the paths of helper h (nested helpers of the same kind interpreted) and
+// looks for a result that is one definite value — a boolean constant, nil, or non-nil — on
+// every path that answers.
+func (p *c04Preds) termSig(h *ssa.Function) *c04TermSig {
+	if s, ok := p.sigs[h]; ok {
+		return s
+	}
+	s := &c04TermSig{}
+	p.sigs[h] = s
+	res := h.Signature.Results()
+	if res.Len() == 0 {
+		return s
+	}
+	tr := &eng.Tracer{In: &eng.Interp{W: p.c.W, Depth: eng.LiftDepth, MaxPaths: 1 << 12}, Follow: p.follow(nil), KnownResults: true}
+	paths, err := tr.Run(h, nil)
+	if err != nil || len(paths) == 0 {
+		return s
+	}
+	all := func(vs []eng.AV, f func(eng.AV) bool) bool {
+		for _, v := range vs {
+			if !f(v) {
+				return false
+			}
+		}
+		return len(vs) > 0
+	}
+	isNil := func(v eng.AV) bool { return v.K == eng.NilV }
+	nonNil := func(v eng.AV) bool { return v.K == eng.NonNilV || v.K == eng.LenV }
+	// Only the answering side has to be definite: on an edge of the caller on which the result
+	// is known to differ from the value every answering path returns, the helper has not
+	// answered — whatever the other paths return.
+	for idx := 0; idx < res.Len() && !s.known; idx++ {
+		var tv []eng.AV
+		bad := false
+		for _, tp := range paths {
+			if tp.Panicked {
+				continue
+			}
+			answered := false
+			for _, e := range tp.Events {
+				answered = answered || p.evTerm(e)
+			}
+			if !answered {
+				continue
+			}
+			if tp.LoopCut || len(tp.Ret) != res.Len() {
+				bad = true
+				break
+			}
+			tv = append(tv, tp.Ret[idx])
+		}
+		if bad {
+			continue
+		}
+		switch {
+		case all(tv, func(v eng.AV) bool { return v.IsBool(true) }):
+			*s = c04TermSig{known: true, idx: idx, byBool: true, termBool: true}
+		case all(tv, func(v eng.AV) bool { return v.IsBool(false) }):
+			*s = c04TermSig{known: true, idx: idx, byBool: true, termBool: false}
+		case all(tv, isNil):
+			*s = c04TermSig{known: true, idx: idx, termNil: true}
+		case all(tv, nonNil):
+			*s = c04TermSig{known: true, idx: idx, termNil: false}
+		}
+	}
+	return s
+}
+
+// c04MixedSites extends terminate ⇒ not forwarded to calls of helpers that answer on SOME of
+// their paths and tell their caller by a result (`if !d.admit(…) { return }`, `if terminated
+// := h.attach(…); terminated { return }`, `if err := d.check(…); err != nil { return }`): on
+// the caller's paths on which the result says "answered" no forwarding call may be reachable.
+// Edges on which the result is known to say "not answered" are pruned; when no result
+// separates the two kinds of path every continuation counts.
+func c04MixedSites(c *eng.Ctx, p *c04Preds, fn *ssa.Function) {
+	isFwdIns := func(ins ssa.Instruction) bool {
+		ci, ok := ins.(ssa.CallInstruction)
+		if !ok {
+			return false
+		}
+		if _, isDefer := ins.(*ssa.Defer); isDefer {
+			return false
+		}
+		return p.forwards(ci)
+	}
+	ord := map[string]int{}
+	for _, ci := range eng.Calls(fn) {
+		call, plain := ci.(*ssa.Call)
+		h := eng.CalleeFn(ci)
+		if !plain || h == nil || !p.scope[h] || !p.mayTerm[h] || p.mustTerm[h] || c04IsHandlerMethod(h, p) {
+			continue
+		}
+		lab := p.termLabel(ci)
+		ord[lab]++
+		construct := fmt.Sprintf("%s (answers on some paths)#%d ⇒ not forwarded", lab, ord[lab])
+		sig := p.termSig(h)
+		var rvs []ssa.Value
+		if sig.known {
+			if h.Signature.Results().Len() == 1 {
+				rvs = append(rvs, call)
+			} else {
+				for _, e := range eng.ExtractOf(call, sig.idx) {
+					rvs = append(rvs, e)
+				}
+			}
+		}
+		// a result kept in a local cell (a variable captured by a closure lives in one) that is
+		// assigned nothing else: the loads of the cell denote the result as well
+		for _, rv := range append([]ssa.Value{}, rvs...) {
+			if rv.Referrers() == nil {
+				continue
+			}
+			for _, ref := range *rv.Referrers() {
+				st, ok := ref.(*ssa.Store)
+				if !ok || st.Val != rv {
+					continue
+				}
+				cell, ok := st.Addr.(*ssa.Alloc)
+				if !ok || c04OnlyValue(cell) != rv || cell.Referrers() == nil {
+					continue
+				}
+				for _, r2 := range *cell.Referrers() {
+					if ld, ok := r2.(*ssa.UnOp); ok && ld.Op == token.MUL && ld.X == ssa.Value(cell) {
+						rvs = append(rvs, ld)
+					}
+				}
+			}
+		}
+		// an edge is pruned when taking it implies that the helper did not answer
+		prune := func(from *ssa.BasicBlock, succ int) bool {
+			if len(rvs) == 0 || len(from.Instrs) == 0 {
+				return false
+			}
+			iff, ok := from.Instrs[len(from.Instrs)-1].(*ssa.If)
+			if !ok || len(from.Succs) != 2 {
+				return false
+			}
+			truth := succ == 0
+			for _, rv := range rvs {
+				if sig.byBool {
+					if t, ok := eng.CondImplies(iff.Cond, truth, rv); ok && t != sig.termBool {
+						return true
+					}
+					continue
+				}
+				for _, r := range eng.ImpliedRels(iff.Cond, truth) {
+					x, y := r.X, r.Y
+					if eng.IsNilConst(x) {
+						x, y = y, x
+					}
+					if x == rv && eng.IsNilConst(y) && (r.Op == token.EQL || r.Op == token.NEQ) && (r.Op == token.EQL) != sig.termNil {
+						return true
+					}
+				}
+			}
+			return false
+		}
+		var why []string
+		if x := eng.ReachAfter(call, eng.PathQuery{Target: isFwdIns, BlockEdge: prune}); x != nil {
+			how := "whatever the helper reports"
+			if sig.known {
+				how = "on a path on which the helper reports that it has answered"
+			}
+			why = append(why, fmt.Sprintf("a forwarding call (%s) is reachable after the helper %s: the request is answered locally and still handed on", c04CallLabel(x.(ssa.CallInstruction)), how))
+		}
+		eng.Instrs(fn, func(ins ssa.Instruction) {
+			if d, ok := ins.(*ssa.Defer); ok && p.forwards(d) &&
+				eng.ReachAfter(d, eng.PathQuery{Target: func(i ssa.Instruction) bool { return i == ssa.Instruction(call) }}) != nil {
+				why = append(why, "a forwarding call deferred earlier on the path runs after the helper has answered")
+			}
+		})
+		detail := "no path on which the helper has answered reaches a forwarding call"
+		if len(why) > 0 {
+			detail = strings.Join(dedup(why), "; ")
+		}
+		c.Check("R1", fn, construct, call.Pos(), len(why) == 0, detail)
+	}
+}
+
 // ---- R2 --------------------------------------------------------------------------------
 // Protects: "answered with a well-formed API Status whose code tells why (429 when
 // flow-controlled, 503 with Retry-After when the cluster is not proxied or has no ready
-// endpoint, 403 for refused impersonation)". Checked as condition ⇒ constructor on the
-// refusal edge of each condition (not the converse).
+// endpoint, 403 for refused impersonation)". Checked as condition ⇒ constructor (not the
+// converse) by FORCING: the value that carries the reason (the result of TryAcquire, the
+// error of Pop, the presence flag of Manager.Get, the UpstreamCluster field, the results of
+// Authorize) is located by what it is — wherever in the package it is computed —, pinned to
+// the refusing value, and every path of the handler it belongs to (the root of the calling
+// contexts of the function that computes it) is enumerated with the same-package helpers
+// interpreted. On every path that decides the reason, the first answering or forwarding
+// call after the decision must be an answer built by the expected constructor and nothing
+// may be forwarded afterwards. Where the test, the answer or the source call sit (handler,
+// extracted helper returning a flag / a tuple / the value, closure, method value), how the
+// condition is spelled (named, negated, De Morgan, switch) does not matter.
 
 // c04Answer is one base terminating call a (possibly derived) terminating call resolves
 // to, with the constructors its error argument(s) are built by. Origins: a callee full name
-// for call results, "param:i" for parameter i of the enclosing function (substituted at
-// the call site by c04Answers), "?" otherwise.
+// for call results, "param:i" for a parameter that no calling context binds, "?" otherwise.
 type c04Answer struct {
 	callee string
+	site   ssa.CallInstruction // the base terminating call
 	ctors  []string
 }
 
-func c04Origins(c *eng.Ctx, v ssa.Value) []string {
-	sl := c.Slicer()
-	set := map[string]bool{}
-	for _, leaf := range sl.Leaves(v, func(x ssa.Value) bool { cc, _ := eng.CallResultOf(x); return cc != nil }) {
-		if cc, _ := eng.CallResultOf(leaf); cc != nil && eng.FullName(cc) != "" {
-			set[eng.FullName(cc)] = true
+// c04Ctx is the context a value of some function is looked at in: it maps a parameter of a
+// helper to the value its caller hands in, and the result of a helper call to the value the
+// helper returned (with the contexts those values live in). A nil c04Ctx binds nothing.
+type c04Ctx interface {
+	// bind: the caller's value for parameter prm (nil: not bound — prm belongs to the
+	// outermost function of the context).
+	bind(prm *ssa.Parameter) (ssa.Value, c04Ctx)
+	// ret: for a call that was interpreted on the path at hand, the value returned in result
+	// position idx (-1: the single result) by the Return statement that ended it.
+	ret(call *ssa.Call, idx int) (ssa.Value, c04Ctx)
+}
+
+// c04FrameCtx is the context of one activation of a traced path: parameters are bound by the
+// activation's call site, results of interpreted calls by the Return the path took.
+type c04FrameCtx struct {
+	tp *eng.TracedPath
+	fr *eng.TraceFrame
+}
+
+func c04InFrame(tp *eng.TracedPath, fr *eng.TraceFrame) c04Ctx {
+	if fr == nil {
+		return nil
+	}
+	return c04FrameCtx{tp, fr}
+}
+
+func (x c04FrameCtx) bind(prm *ssa.Parameter) (ssa.Value, c04Ctx) {
+	a, in, ok := x.fr.Bind(prm)
+	if !ok {
+		return nil, nil
+	}
+	return a, c04InFrame(x.tp, in)
+}
+
+func (x c04FrameCtx) ret(call *ssa.Call, idx int) (ssa.Value, c04Ctx) {
+	if x.tp == nil {
+		return nil, nil
+	}
+	for _, e := range x.tp.Events {
+		if e.Kind != eng.EvReturn || e.Frame.Site != call || e.Frame.Parent != x.fr {
 			continue
 		}
-		if prm, ok := leaf.(*ssa.Parameter); ok {
-			for i, q := range prm.Parent().Params {
-				if q == prm {
-					set[fmt.Sprintf("param:%d", i)] = true
+		rs := eng.ReturnResults(e.Ins.(*ssa.Return))
+		if idx < 0 {
+			idx = 0
+		}
+		if idx >= len(rs) {
+			return nil, nil
+		}
+		return rs[idx], c04InFrame(x.tp, e.Frame)
+	}
+	return nil, nil
+}
+
+// c04ChainCtx binds through one static calling context (eng.UpChain).
+type c04ChainCtx struct{ ch eng.UpChain }
+
+func c04InChain(ch eng.UpChain) c04Ctx {
+	if len(ch) == 0 {
+		return nil
+	}
+	return c04ChainCtx{ch}
+}
+
+func (x c04ChainCtx) bind(prm *ssa.Parameter) (ssa.Value, c04Ctx) {
+	for i, s := range x.ch {
+		if s.Fn == prm.Parent() {
+			if v := s.Bind(prm); v != nil {
+				return v, c04InChain(x.ch[i+1:])
+			}
+			return nil, nil
+		}
+	}
+	return nil, nil
+}
+
+func (x c04ChainCtx) ret(*ssa.Call, int) (ssa.Value, c04Ctx) { return nil, nil }
+
+// c04ArgsCtx binds the parameters of callee to the arguments of one call of it; everything
+// else is left to the context of the call.
+type c04ArgsCtx struct {
+	callee *ssa.Function
+	args   []ssa.Value
+	outer  c04Ctx
+}
+
+func (x c04ArgsCtx) bind(prm *ssa.Parameter) (ssa.Value, c04Ctx) {
+	if prm.Parent() == x.callee {
+		if idx := eng.ParamIndex(prm); idx >= 0 && idx < len(x.args) {
+			return x.args[idx], x.outer
+		}
+		return nil, nil
+	}
+	if x.outer != nil {
+		return x.outer.bind(prm)
+	}
+	return nil, nil
+}
+
+func (x c04ArgsCtx) ret(*ssa.Call, int) (ssa.Value, c04Ctx) { return nil, nil }
+
+// origins collects where v comes from: the callees of the (non-repository) calls whose
+// results it is built from — repository helpers that merely return the value are looked
+// through: on a traced path through the Return statement the path took, otherwise by the
+// slicer (all returns) —, with parameters resolved through the calling context.
+func (p *c04Preds) origins(v ssa.Value, cx c04Ctx, depth int, set map[string]bool) {
+	stop := func(x ssa.Value) bool {
+		cc, idx := eng.CallResultOf(x)
+		if cc == nil {
+			return false
+		}
+		if cx != nil {
+			if rv, _ := cx.ret(cc, idx); rv != nil {
+				return true
+			}
+		}
+		f := cc.Call.StaticCallee()
+		return f == nil || !eng.Analysable(f)
+	}
+	for _, leaf := range p.c.Slicer().Leaves(v, stop) {
+		if cc, idx := eng.CallResultOf(leaf); cc != nil {
+			if cx != nil && depth > 0 {
+				if rv, rcx := cx.ret(cc, idx); rv != nil {
+					p.origins(rv, rcx, depth-1, set)
+					continue
 				}
 			}
+			if eng.FullName(cc) != "" {
+				set[eng.FullName(cc)] = true
+				continue
+			}
+		}
+		if prm, ok := leaf.(*ssa.Parameter); ok {
+			if cx != nil && depth > 0 {
+				if a, ncx := cx.bind(prm); a != nil {
+					p.origins(a, ncx, depth-1, set)
+					continue
+				}
+			}
+			set[fmt.Sprintf("param:%d", eng.ParamIndex(prm))] = true
 			continue
+		}
+		// a package-level variable initialised once (an error value hoisted out of the
+		// handler): what its initialiser builds
+		if g, ok := leaf.(*ssa.Global); ok && depth > 0 && g.Pkg != nil {
+			if init := g.Pkg.Func("init"); init != nil {
+				var vals []ssa.Value
+				seen := map[*ssa.Function]bool{}
+				for _, fn := range append(eng.WithClosures(init), p.c.W.FuncsOf(g.Pkg.Pkg.Path())...) {
+					if seen[fn] {
+						continue
+					}
+					seen[fn] = true
+					eng.Instrs(fn, func(i ssa.Instruction) {
+						if st, ok := i.(*ssa.Store); ok && st.Addr == ssa.Value(g) {
+							vals = append(vals, st.Val)
+						}
+					})
+				}
+				if len(vals) == 1 {
+					p.origins(vals[0], nil, depth-1, set)
+					continue
+				}
+			}
 		}
 		set["?"] = true
 	}
+}
+
+// derives is Slicer.DerivesFrom in a context: parameters that the slice ends in are
+// continued in the values the context binds them to.
+func (p *c04Preds) derives(sl *eng.Slicer, v ssa.Value, cx c04Ctx, depth int, pred func(ssa.Value) bool) bool {
+	if sl.DerivesFrom(v, pred) {
+		return true
+	}
+	if cx == nil || depth == 0 {
+		return false
+	}
+	for _, leaf := range sl.Leaves(v, nil) {
+		if prm, ok := leaf.(*ssa.Parameter); ok {
+			if a, ncx := cx.bind(prm); a != nil && p.derives(sl, a, ncx, depth-1, pred) {
+				return true
+			}
+		}
+	}
+	return false
+}
+
+func c04SortedKeys(set map[string]bool) []string {
 	var out []string
 	for k := range set {
 		out = append(out, k)
 	}
+	sort.Strings(out)
 	return out
 }
 
 // c04Answers resolves terminating call t to the base terminating calls that actually
 // write the answer: t itself, or — when t calls a same-package helper / closure every path
 // of which terminates — the first terminating calls inside it, with the helper's
-// parameters replaced by t's arguments (so extracting a helper does not change the verdict).
-func (p *c04Preds) c04Answers(t ssa.CallInstruction, depth int) []c04Answer {
-	callee := eng.CalleeFn(t)
+// parameters bound to t's arguments and the parameters of t's own function bound by bind
+// (so neither extracting a helper around the answer nor extracting the block that contains
+// t changes the verdict).
+func (p *c04Preds) c04Answers(t ssa.CallInstruction, depth int, cx c04Ctx) []c04Answer {
+	callee, bound := c04Callee(p.c.W, t)
 	if p.baseTerm(t) || callee == nil || !p.mustTerm[callee] || depth == 0 || len(callee.Blocks) == 0 {
-		a := c04Answer{callee: eng.FullName(t)}
+		a := c04Answer{callee: eng.FullName(t), site: t}
 		set := map[string]bool{}
 		for _, arg := range t.Common().Args {
 			if eng.TypeName(arg.Type()) == c04PkgAPIErrors+".StatusError" || arg.Type().String() == "error" {
-				for _, o := range c04Origins(p.c, arg) {
-					set[o] = true
-				}
+				p.origins(arg, cx, 4, set)
 			}
 		}
-		for k := range set {
-			a.ctors = append(a.ctors, k)
-		}
+		a.ctors = c04SortedKeys(set)
 		return []c04Answer{a}
 	}
+	inner := c04ArgsCtx{callee: callee, args: bound, outer: cx}
 	var out []c04Answer
 	for _, u := range c04FirstFrom(callee.Blocks[0], p.termIns) {
-		for _, in := range p.c04Answers(u.(ssa.CallInstruction), depth-1) {
-			set := map[string]bool{}
-			for _, o := range in.ctors {
-				var idx int
-				if n, _ := fmt.Sscanf(o, "param:%d", &idx); n == 1 && idx < len(t.Common().Args) {
-					for _, oo := range c04Origins(p.c, t.Common().Args[idx]) {
-						set[oo] = true
-					}
+		out = append(out, p.c04Answers(u.(ssa.CallInstruction), depth-1, inner)...)
+	}
+	return out
+}
+
+// forwards: the call hands the request on, directly or through a closure invoked in place.
+func (p *c04Preds) forwards(ci ssa.CallInstruction) bool {
+	if p.isFwd(ci) {
+		return true
+	}
+	if cl := c04ClosureOf(ci); cl != nil {
+		for _, f := range eng.WithClosures(cl) {
+			for _, cc := range eng.Calls(f) {
+				if p.isFwd(cc) {
+					return true
+				}
+			}
+		}
+	}
+	return false
+}
+
+// follow selects the callees a traced run interprets: functions of the forwarding packages
+// (never the Handler / RoundTripper methods, which are forwarders by identity) that answer on
+// some path — unless they answer on every path and never forward, in which case the call is
+// an atomic answer — plus whatever the rule at hand needs (extra).
+func (p *c04Preds) follow(extra func(*ssa.Function) bool) func(*ssa.Call, *ssa.Function, *eng.TraceFrame) bool {
+	return func(_ *ssa.Call, callee *ssa.Function, _ *eng.TraceFrame) bool {
+		if !p.scope[callee] || c04IsHandlerMethod(callee, p) {
+			return false
+		}
+		if extra != nil && extra(callee) {
+			return true
+		}
+		return p.mayTerm[callee] && !(p.mustTerm[callee] && !p.mayFwd[callee])
+	}
+}
+
+// evTerm: the event is an answer written to the client (a call that was not interpreted).
+func (p *c04Preds) evTerm(e eng.TraceEvent) bool {
+	ci, ok := e.Ins.(*ssa.Call)
+	return e.Kind == eng.EvCall && ok && !e.Followed && p.isTerm(ci)
+}
+
+// evFwd: the event hands the request on (deferred: when the activation ends).
+func (p *c04Preds) evFwd(e eng.TraceEvent) (fwd, deferred bool) {
+	if e.Kind != eng.EvCall || e.Followed {
+		return false, false
+	}
+	ci, ok := e.Ins.(ssa.CallInstruction)
+	if !ok || !p.forwards(ci) {
+		return false, false
+	}
+	_, deferred = e.Ins.(*ssa.Defer)
+	return true, deferred
+}
+
+func c04FrameActive(outer, at *eng.TraceFrame) bool {
+	for x := at; x != nil; x = x.Parent {
+		if x == outer {
+			return true
+		}
+	}
+	return false
+}
+
+// c04AnswerAfter decides one path on which the reason was decided at event i: the first
+// answering or forwarding event after it must be an answer accepted by accept, and nothing
+// is forwarded once the answer is written.
+func (p *c04Preds) c04AnswerAfter(tp *eng.TracedPath, i int, accept func(t *ssa.Call, cx c04Ctx) (bool, string)) (bool, string) {
+	evs := tp.Events
+	for j := i + 1; j < len(evs); j++ {
+		e := evs[j]
+		if fwd, deferred := p.evFwd(e); fwd && !deferred {
+			return false, fmt.Sprintf("a forwarding call (%s) is reached on the refusal path before any terminating answer", c04CallLabel(e.Ins.(ssa.CallInstruction)))
+		}
+		if !p.evTerm(e) {
+			continue
+		}
+		if ok, why := accept(e.Ins.(*ssa.Call), c04InFrame(tp, e.Frame)); !ok {
+			return false, why
+		}
+		for k := j + 1; k < len(evs); k++ {
+			if fwd, _ := p.evFwd(evs[k]); fwd {
+				return false, fmt.Sprintf("the refusal is answered and the request is still handed on (%s)", c04CallLabel(evs[k].Ins.(ssa.CallInstruction)))
+			}
+		}
+		for k := 0; k < j; k++ {
+			if fwd, deferred := p.evFwd(evs[k]); fwd && deferred && c04FrameActive(evs[k].Frame, e.Frame) {
+				return false, "a forwarding call deferred earlier runs after the refusal was answered"
+			}
+		}
+		return true, ""
+	}
+	switch {
+	case tp.LoopCut:
+		return false, "the refusal path runs into a loop before any terminating answer (undecided)"
+	case tp.Panicked:
+		return false, "the refusal path panics before any terminating answer"
+	}
+	return false, "an exit is reachable on the refusal path without any terminating answer"
+}
+
+// c04Forcing is one assignment of the reason-carrying values under which the reason holds.
+type c04Forcing struct {
+	label   string
+	pinCall func(c *ssa.Call, idx int) (eng.AV, bool)
+	pinLoad func(ld *ssa.UnOp) (eng.AV, bool)
+	// decided reports the event at which the reason is decided on a path: the source call
+	// executes, or a pinned load is consumed by a test.
+	decided func(e eng.TraceEvent) bool
+}
+
+// c04Reason is one reason ⇒ status pair.
+type c04Reason struct {
+	construct string
+	pkg       string // the package whose functions are searched for the reason-carrying value
+	missing   string
+	sources   func(fn *ssa.Function) []ssa.Instruction
+	forcings  func(src ssa.Instruction) []c04Forcing
+	accept    func(t *ssa.Call, cx c04Ctx) (bool, string)
+}
+
+// c04Roots returns the functions in which the calling contexts of fn end (fn itself when
+// its callers are not completely known): the handlers fn runs as a part of.
+func c04Roots(c *eng.Ctx, fn *ssa.Function) []*ssa.Function {
+	var out []*ssa.Function
+	seen := map[*ssa.Function]bool{}
+	for _, ch := range c.W.UpChains(fn, nil) {
+		if r := ch.Top(fn); r != nil && !seen[r] {
+			seen[r] = true
+			out = append(out, r)
+		}
+	}
+	if len(out) == 0 {
+		out = append(out, fn)
+	}
+	return out
+}
+
+// c04ReachesAny returns the functions of the scope from which one of the target functions is
+// reached through static calls (the helpers on the way from a root to the reason's source).
+func (p *c04Preds) c04ReachesAny(targets map[*ssa.Function]bool) map[*ssa.Function]bool {
+	out := map[*ssa.Function]bool{}
+	for f := range targets {
+		out[f] = true
+	}
+	for changed := true; changed; {
+		changed = false
+		for fn := range p.scope {
+			if out[fn] {
+				continue
+			}
+			for _, ci := range eng.Calls(fn) {
+				if _, plain := ci.(*ssa.Call); !plain {
 					continue
 				}
-				set[o] = true
+				if f := eng.CalleeFn(ci); f != nil && out[f] {
+					out[fn] = true
+					changed = true
+					break
+				}
 			}
-			r := c04Answer{callee: in.callee}
-			for k := range set {
-				r.ctors = append(r.ctors, k)
-			}
-			out = append(out, r)
 		}
 	}
 	return out
 }
 
-// c04EdgeAnswers decides one reason↔status pair: every path that leaves through block b
-// (the refusal edge) reaches a terminating call before any exit or forwarding call, and
-// each first terminating call on it is accepted by `accept`.
-func c04EdgeAnswers(p *c04Preds, b *ssa.BasicBlock, accept func(ssa.CallInstruction) (bool, string)) (bool, string) {
-	if x := eng.ReachFromBlock(b, eng.PathQuery{
-		Target: func(i ssa.Instruction) bool { return eng.IsExit(i) || p.fwdIns(i) },
-		Avoid:  p.termIns,
-	}); x != nil {
-		if eng.IsExit(x) {
-			return false, "an exit is reachable on the refusal edge without any terminating answer"
-		}
-		return false, "a forwarding call is reachable on the refusal edge before any terminating answer"
+func (p *c04Preds) c04Trace(root *ssa.Function, f c04Forcing, extra func(*ssa.Function) bool) ([]eng.TracedPath, error) {
+	in := &eng.Interp{W: p.c.W, Depth: eng.LiftDepth + 1, MaxPaths: 1 << 14}
+	if f.pinLoad != nil {
+		in.PinLoad = func(ld *ssa.UnOp, _ string) (eng.AV, bool) { return f.pinLoad(ld) }
 	}
-	firsts := c04FirstFrom(b, p.termIns)
-	if len(firsts) == 0 {
-		return false, "no terminating call on the refusal edge"
+	tr := &eng.Tracer{In: in, Follow: p.follow(extra), KnownResults: true}
+	if f.pinCall != nil {
+		tr.Pin = func(c *ssa.Call, idx int, _ *eng.TraceFrame, _ *eng.State) (eng.AV, bool) { return f.pinCall(c, idx) }
 	}
-	for _, t := range firsts {
-		if ok, why := accept(t.(ssa.CallInstruction)); !ok {
-			return false, why
-		}
-	}
-	return true, ""
+	return tr.Run(root, nil)
 }
 
-func c04AcceptCtor(p *c04Preds, ctor string) func(ssa.CallInstruction) (bool, string) {
-	return func(t ssa.CallInstruction) (bool, string) {
-		for _, a := range p.c04Answers(t, 3) {
+// c04CheckReason evaluates one reason ⇒ status pair on every handler the reason is decided in.
+func c04CheckReason(c *eng.Ctx, p *c04Preds, r c04Reason) {
+	type job struct {
+		root *ssa.Function
+		srcs []ssa.Instruction
+	}
+	var jobs []*job
+	byRoot := map[*ssa.Function]*job{}
+	holders := map[*ssa.Function]bool{}
+	for _, fn := range c.W.FuncsOf(r.pkg) {
+		srcs := r.sources(fn)
+		if len(srcs) == 0 {
+			continue
+		}
+		holders[fn] = true
+		for _, root := range c04Roots(c, fn) {
+			// only functions that take part in handling a request — they answer or hand it on
+			// on some path — are subjects; a reader of the value with unknown callers that does
+			// neither (a logging or metrics helper) decides nothing
+			if !p.mayTerm[root] && !p.mayFwd[root] {
+				continue
+			}
+			j := byRoot[root]
+			if j == nil {
+				j = &job{root: root}
+				byRoot[root] = j
+				jobs = append(jobs, j)
+			}
+			j.srcs = append(j.srcs, srcs...)
+		}
+	}
+	if len(jobs) == 0 {
+		c.Fail("R2", nil, r.construct, 0, r.missing)
+		return
+	}
+	onWay := p.c04ReachesAny(holders)
+	for _, j := range jobs {
+		ok, undecided, why := true, false, ""
+		for _, src := range j.srcs {
+			for _, f := range r.forcings(src) {
+				paths, err := p.c04Trace(j.root, f, func(fn *ssa.Function) bool { return onWay[fn] })
+				if err != nil {
+					ok, undecided, why = false, true, "forcing "+f.label+": "+err.Error()
+					continue
+				}
+				decided := 0
+				for pi := range paths {
+					tp := &paths[pi]
+					at := -1
+					for i, e := range tp.Events {
+						if f.decided(e) {
+							at = i
+							break
+						}
+					}
+					if at < 0 {
+						continue
+					}
+					decided++
+					if o, w := p.c04AnswerAfter(tp, at, r.accept); !o {
+						ok = false
+						why = w
+						if f.label != "" {
+							why = "with " + f.label + ": " + w
+						}
+					}
+				}
+				c.Note("C04.R2 %s [%s] on %s: %d paths enumerated, %d decide the reason", r.construct, f.label, eng.FuncName(j.root), len(paths), decided)
+				if decided == 0 {
+					ok, why = false, "no path of the handler decides the reason ("+f.label+"): the refusing value is never tested"
+				}
+			}
+		}
+		switch {
+		case undecided:
+			c.Undecided("R2", j.root, r.construct, j.root.Pos(), why)
+		default:
+			if ok {
+				why = "every path on which the reason holds answers through the expected constructor before any exit or forwarding call, and forwards nothing afterwards"
+			}
+			c.Check("R2", j.root, r.construct, j.root.Pos(), ok, why)
+		}
+	}
+}
+
+func (p *c04Preds) acceptCtor(ctor string) func(t *ssa.Call, cx c04Ctx) (bool, string) {
+	return func(t *ssa.Call, cx c04Ctx) (bool, string) {
+		for _, a := range p.c04Answers(t, 3, cx) {
 			if len(a.ctors) != 1 || a.ctors[0] != c04PkgAPIErrors+"."+ctor {
-				return false, fmt.Sprintf("the answer on this edge is built by %v, want errors.%s (the client is told the wrong reason / retry policy)", a.ctors, ctor)
+				return false, fmt.Sprintf("the answer on this path is built by %v, want errors.%s (the client is told the wrong reason / retry policy)", a.ctors, ctor)
 			}
 		}
 		return true, ""
 	}
 }
 
-// c04IfEdges returns, for every If of fn whose normalised condition satisfies match, the
-// successor block on which the relation `want(rel)` says the refusal holds.
-// match returns (matched, refusalOnTrueEdge).
-func c04IfEdges(fn *ssa.Function, match func(r eng.Rel) (bool, bool)) []*ssa.BasicBlock {
-	var out []*ssa.BasicBlock
-	for _, b := range fn.Blocks {
-		if len(b.Instrs) == 0 {
-			continue
-		}
-		iff, ok := b.Instrs[len(b.Instrs)-1].(*ssa.If)
-		if !ok {
-			continue
-		}
-		if m, onTrue := match(eng.RelOf(iff.Cond, true)); m {
-			if onTrue {
-				out = append(out, b.Succs[0])
-			} else {
-				out = append(out, b.Succs[1])
+// c04CallSources: the plain calls of fn satisfying match.
+func c04CallSources(match func(ci ssa.CallInstruction) bool) func(fn *ssa.Function) []ssa.Instruction {
+	return func(fn *ssa.Function) []ssa.Instruction {
+		var out []ssa.Instruction
+		for _, ci := range eng.Calls(fn) {
+			if _, plain := ci.(*ssa.Call); plain && match(ci) {
+				out = append(out, ci)
 			}
 		}
-	}
-	return out
-}
-
-// c04NilRel matches `X == nil` / `X != nil` for X identified by isX; the returned flag says
-// whether the true edge is the edge with wantNil.
-func c04NilRel(isX func(ssa.Value) bool, wantNil bool) func(eng.Rel) (bool, bool) {
-	return func(r eng.Rel) (bool, bool) {
-		var other ssa.Value
-		switch {
-		case isX(r.X):
-			other = r.Y
-		case isX(r.Y):
-			other = r.X
-		default:
-			return false, false
-		}
-		if !eng.IsNilConst(other) || (r.Op != token.EQL && r.Op != token.NEQ) {
-			return false, false
-		}
-		return true, (r.Op == token.EQL) == wantNil
+		return out
 	}
 }
 
-func c04BoolEdges(v ssa.Value, want bool) []*ssa.BasicBlock {
-	var out []*ssa.BasicBlock
-	for _, br := range eng.BranchesOn(v) {
-		if want {
-			out = append(out, br.OnTrue)
-		} else {
-			out = append(out, br.OnFalse)
+// c04PinResults forces results of the source call: vals maps a result index (-1: the single
+// result) to its value.
+func c04PinResults(label string, src ssa.Instruction, vals map[int]eng.AV) c04Forcing {
+	return c04Forcing{
+		label: label,
+		pinCall: func(c *ssa.Call, idx int) (eng.AV, bool) {
+			if ssa.Instruction(c) != src {
+				return eng.AV{}, false
+			}
+			av, ok := vals[idx]
+			return av, ok
+		},
+		decided: func(e eng.TraceEvent) bool { return e.Kind == eng.EvCall && e.Ins == src },
+	}
+}
+
+// c04ConstsOfType returns the package-level constants of pkg whose type is the named type.
+func c04ConstsOfType(c *eng.Ctx, pkg, typ string) map[string]int64 {
+	out := map[string]int64{}
+	p, ok := c.W.All[pkg]
+	if !ok || p.Types == nil {
+		return out
+	}
+	sc := p.Types.Scope()
+	for _, n := range sc.Names() {
+		k, ok := sc.Lookup(n).(*types.Const)
+		if !ok || eng.TypeName(k.Type()) != pkg+"."+typ {
+			continue
+		}
+		if v, ok := eng.IntConst(ssa.NewConst(k.Val(), k.Type())); ok {
+			out[n] = v
 		}
 	}
 	return out
 }
 
 func c04R2(c *eng.Ctx, p *c04Preds) {
-	pair := func(fn *ssa.Function, construct string, edges []*ssa.BasicBlock, accept func(ssa.CallInstruction) (bool, string), missing string) {
-		if len(edges) == 0 {
-			c.Fail("R2", fn, construct, fn.Pos(), missing)
-			return
-		}
-		ok, why := true, ""
-		for _, e := range edges {
-			if o, w := c04EdgeAnswers(p, e, accept); !o {
-				ok, why = false, w
-			}
-		}
-		if ok {
-			why = "every path on the refusal edge answers through the expected constructor before any exit or forwarding call"
-		}
-		c.Check("R2", fn, construct, fn.Pos(), ok, why)
+	tExtra := pkgRequest + ".ExtraRequestInfo"
+	isLoadOf := func(v ssa.Value, field string) bool {
+		ld, ok := v.(*ssa.UnOp)
+		return ok && ld.Op == token.MUL && eng.FieldLoadOf(ld, tExtra, field)
 	}
+	var reasons []c04Reason
 
 	// ---- dispatcher: 429 / 503 / 503
-	if sh := c.MustMethod(pkgDispatcher, "dispatcher", "ServeHTTP"); sh != nil {
-		if iface := fcIface(c); iface != nil {
-			var edges []*ssa.BasicBlock
-			for _, ci := range eng.Calls(sh) {
-				if isFCCall(ci, iface, "TryAcquire") {
-					if v := eng.ResultValue(ci); v != nil {
-						edges = append(edges, c04BoolEdges(v, false)...)
+	if iface := fcIface(c); iface != nil {
+		reasons = append(reasons, c04Reason{
+			construct: "refused TryAcquire ⇒ 429 TooManyRequests", pkg: pkgDispatcher,
+			missing: "no call of FlowControl.TryAcquire found in the dispatcher package",
+			sources: c04CallSources(func(ci ssa.CallInstruction) bool { return isFCCall(ci, iface, "TryAcquire") }),
+			forcings: func(src ssa.Instruction) []c04Forcing {
+				return []c04Forcing{c04PinResults("TryAcquire()=false", src, map[int]eng.AV{-1: eng.AVBool(false)})}
+			},
+			accept: p.acceptCtor("NewTooManyRequests"),
+		})
+	}
+	reasons = append(reasons, c04Reason{
+		construct: "Pop error ⇒ 503 ServiceUnavailable", pkg: pkgDispatcher,
+		missing: "no call of EndpointPicker.Pop found in the dispatcher package",
+		sources: c04CallSources(func(ci ssa.CallInstruction) bool { return eng.IsCall(ci, "("+pkgClusters+".EndpointPicker).Pop") }),
+		forcings: func(src ssa.Instruction) []c04Forcing {
+			return []c04Forcing{c04PinResults("Pop() error non-nil", src, map[int]eng.AV{1: {K: eng.NonNilV}})}
+		},
+		accept: p.acceptCtor("NewServiceUnavailable"),
+	})
+	reasons = append(reasons, c04Reason{
+		construct: "cluster not proxied ⇒ 503 ServiceUnavailable", pkg: pkgDispatcher,
+		missing: "ExtraRequestInfo.UpstreamCluster is never read in the dispatcher package",
+		sources: func(fn *ssa.Function) []ssa.Instruction {
+			var out []ssa.Instruction
+			eng.Instrs(fn, func(ins ssa.Instruction) {
+				if v, ok := ins.(ssa.Value); ok && isLoadOf(v, "UpstreamCluster") {
+					out = append(out, ins)
+				}
+			})
+			if len(out) > 1 {
+				out = out[:1] // the forcing pins every read of the field: one run per function
+			}
+			return out
+		},
+		forcings: func(ssa.Instruction) []c04Forcing {
+			return []c04Forcing{{
+				label: "IsProxyRequest=true, UpstreamCluster=nil",
+				pinLoad: func(ld *ssa.UnOp) (eng.AV, bool) {
+					switch {
+					case isLoadOf(ld, "UpstreamCluster"):
+						return eng.AV{K: eng.NilV}, true
+					case isLoadOf(ld, "IsProxyRequest"):
+						return eng.AVBool(true), true
 					}
-				}
-			}
-			pair(sh, "refused TryAcquire ⇒ 429 TooManyRequests", edges, c04AcceptCtor(p, "NewTooManyRequests"), "no branch on the result of FlowControl.TryAcquire found")
-		}
-		isPopErr := func(v ssa.Value) bool {
-			cc, idx := eng.CallResultOf(v)
-			return cc != nil && idx == 1 && eng.IsCall(cc, "("+pkgClusters+".EndpointPicker).Pop")
-		}
-		pair(sh, "Pop error ⇒ 503 ServiceUnavailable", c04IfEdges(sh, c04NilRel(isPopErr, false)), c04AcceptCtor(p, "NewServiceUnavailable"), "no test of the error returned by EndpointPicker.Pop found")
-		isCluster := func(v ssa.Value) bool { return eng.FieldLoadOf(v, pkgRequest+".ExtraRequestInfo", "UpstreamCluster") }
-		pair(sh, "cluster not proxied ⇒ 503 ServiceUnavailable", c04IfEdges(sh, c04NilRel(isCluster, true)), c04AcceptCtor(p, "NewServiceUnavailable"), "no nil test of ExtraRequestInfo.UpstreamCluster found")
-	}
+					return eng.AV{}, false
+				},
+				decided: func(e eng.TraceEvent) bool {
+					v, ok := e.Ins.(ssa.Value)
+					return e.Kind == eng.EvPinned && ok && isLoadOf(v, "UpstreamCluster")
+				},
+			}}
+		},
+		accept: p.acceptCtor("NewServiceUnavailable"),
+	})
 
-	// ---- WithUpstreamInfo: unknown host ⇒ 503
-	if wu := c.MustFunc(pkgFilters, "WithUpstreamInfo"); wu != nil {
-		found := false
-		for _, fn := range eng.WithClosures(wu) {
-			var edges []*ssa.BasicBlock
-			for _, ci := range eng.CallsTo(fn, "("+pkgClusters+".Manager).Get") {
-				for _, e := range eng.ExtractOf(eng.ResultValue(ci), 1) {
-					edges = append(edges, c04BoolEdges(e, false)...)
-				}
-			}
-			if len(edges) > 0 {
-				found = true
-				pair(fn, "cluster not proxied ⇒ 503 ServiceUnavailable", edges, c04AcceptCtor(p, "NewServiceUnavailable"), "")
-			}
-		}
-		if !found {
-			c.Fail("R2", wu, "cluster not proxied ⇒ 503 ServiceUnavailable", wu.Pos(), "no branch on the presence flag of clusters.Manager.Get found")
-		}
-	}
+	// ---- the filter that resolves the host: unknown host ⇒ 503
+	reasons = append(reasons, c04Reason{
+		construct: "cluster not proxied ⇒ 503 ServiceUnavailable", pkg: pkgFilters,
+		missing: "no call of clusters.Manager.Get found in the filters package",
+		sources: c04CallSources(func(ci ssa.CallInstruction) bool { return eng.IsCall(ci, "("+pkgClusters+".Manager).Get") }),
+		forcings: func(src ssa.Instruction) []c04Forcing {
+			return []c04Forcing{c04PinResults("Manager.Get() found=false", src, map[int]eng.AV{1: eng.AVBool(false)})}
+		},
+		accept: p.acceptCtor("NewServiceUnavailable"),
+	})
 
 	// ---- impersonation: err != nil or decision != Allow ⇒ 403 Forbidden
-	if wi := c.MustFunc(pkgFilters, "WithNoLoggingImpersonation"); wi != nil {
-		allow, haveAllow := c04ConstInt(c, c04PkgAuthorizer, "DecisionAllow")
-		if !haveAllow {
-			c.Fail("engine", nil, "unresolved-anchor const authorizer.DecisionAllow", 0, "constant not found")
-		}
-		found := false
-		for _, fn := range eng.WithClosures(wi) {
-			for _, ci := range eng.CallsTo(fn, "("+c04PkgAuthorizer+".Authorizer).Authorize") {
-				found = true
-				res := eng.ResultValue(ci)
-				isErr := func(v ssa.Value) bool {
-					cc, i := eng.CallResultOf(v)
-					return cc != nil && ssa.Value(cc) == res && i == 2
-				}
-				isDec := func(v ssa.Value) bool {
-					cc, i := eng.CallResultOf(v)
-					return cc != nil && ssa.Value(cc) == res && i == 0
-				}
-				acceptForbidden := func(t ssa.CallInstruction) (bool, string) {
-					for _, a := range p.c04Answers(t, 3) {
-						if a.callee != c04PkgRespWriters+".Forbidden" {
-							return false, "a refused impersonation is answered by " + shortName(a.callee) + ", want responsewriters.Forbidden (403)"
-						}
-					}
-					return true, ""
-				}
-				pair(fn, "impersonation authorizer error ⇒ 403 Forbidden", c04IfEdges(fn, c04NilRel(isErr, false)), acceptForbidden, "the error of Authorize is not tested")
-				undecided := ""
-				decEdges := c04IfEdges(fn, func(r eng.Rel) (bool, bool) {
-					if !isDec(r.X) || (r.Op != token.EQL && r.Op != token.NEQ) {
-						return false, false
-					}
-					k, isK := eng.IntConst(r.Y)
-					if !isK || k != allow {
-						undecided = "the refusal test compares the decision with something other than DecisionAllow"
-						return false, false
-					}
-					return true, r.Op == token.NEQ
-				})
-				if undecided != "" {
-					c.Undecided("R2", fn, "impersonation not allowed ⇒ 403 Forbidden", ci.Pos(), undecided)
-				} else {
-					pair(fn, "impersonation not allowed ⇒ 403 Forbidden", decEdges, acceptForbidden, "the decision of Authorize is not compared with DecisionAllow")
-				}
+	acceptForbidden := func(t *ssa.Call, cx c04Ctx) (bool, string) {
+		for _, a := range p.c04Answers(t, 3, cx) {
+			if a.callee != c04PkgRespWriters+".Forbidden" {
+				return false, "a refused impersonation is answered by " + shortName(a.callee) + ", want responsewriters.Forbidden (403)"
 			}
 		}
-		if !found {
-			c.Fail("R2", wi, "impersonation not allowed ⇒ 403 Forbidden", wi.Pos(), "no call of Authorizer.Authorize found")
-		}
+		return true, ""
+	}
+	isAuthorize := func(ci ssa.CallInstruction) bool {
+		return eng.IsCall(ci, "("+c04PkgAuthorizer+".Authorizer).Authorize")
+	}
+	reasons = append(reasons, c04Reason{
+		construct: "impersonation authorizer error ⇒ 403 Forbidden", pkg: pkgFilters,
+		missing: "no call of Authorizer.Authorize found in the filters package",
+		sources: c04CallSources(isAuthorize),
+		forcings: func(src ssa.Instruction) []c04Forcing {
+			return []c04Forcing{c04PinResults("Authorize() error non-nil", src, map[int]eng.AV{2: {K: eng.NonNilV}})}
+		},
+		accept: acceptForbidden,
+	})
+	decisions := c04ConstsOfType(c, c04PkgAuthorizer, "Decision")
+	allow, haveAllow := decisions["DecisionAllow"]
+	if !haveAllow || len(decisions) < 2 {
+		c.Fail("engine", nil, "unresolved-anchor const authorizer.DecisionAllow", 0, "constant not found")
+	}
+	reasons = append(reasons, c04Reason{
+		construct: "impersonation not allowed ⇒ 403 Forbidden", pkg: pkgFilters,
+		missing: "no call of Authorizer.Authorize found in the filters package",
+		sources: c04CallSources(isAuthorize),
+		forcings: func(src ssa.Instruction) []c04Forcing {
+			var out []c04Forcing
+			for _, name := range c04SortedKeys(func() map[string]bool {
+				m := map[string]bool{}
+				for n := range decisions {
+					m[n] = true
+				}
+				return m
+			}()) {
+				if k := decisions[name]; k != allow {
+					out = append(out, c04PinResults("Authorize()="+name+", nil error", src, map[int]eng.AV{0: eng.AVInt(k), 2: {K: eng.NilV}}))
+				}
+			}
+			return out
+		},
+		accept: acceptForbidden,
+	})
+	for _, r := range reasons {
+		c04CheckReason(c, p, r)
 	}
 
-	// ---- the error travels unchanged down to TerminateWithError
-	passThrough := func(fn *ssa.Function, callee string, construct string) {
-		if fn == nil {
-			return
+	// ---- the error travels unchanged down to the function that writes the Status: every
+	// answering helper of the gateway (a function that takes the *StatusError and answers on
+	// every path by calling another function of the forwarding packages) hands on the very
+	// error, writer and request it was given. The helpers are found by this role, not by name.
+	var helpers []*ssa.Function
+	for _, pk := range []string{pkgDispatcher, pkgFilters, pkgResponse} {
+		helpers = append(helpers, c.W.FuncsOf(pk)...)
+	}
+	for _, fn := range helpers {
+		if !p.mustTerm[fn] {
+			continue
 		}
-		calls := eng.CallsTo(fn, callee)
-		if len(calls) == 0 {
-			c.Fail("R2", fn, construct, fn.Pos(), "does not call "+shortName(callee))
-			return
+		hasErr := false
+		for _, prm := range fn.Params {
+			if eng.TypeName(prm.Type()) == c04PkgAPIErrors+".StatusError" {
+				hasErr = true
+			}
 		}
-		for _, ci := range calls {
+		if !hasErr {
+			continue
+		}
+		for _, ci := range eng.Calls(fn) {
+			callee := eng.CalleeFn(ci)
+			if _, plain := ci.(*ssa.Call); !plain || callee == nil || !p.scope[callee] || !p.isTerm(ci) {
+				continue
+			}
 			ok := true
 			// every parameter of type *StatusError, ResponseWriter, *Request must be handed on as is
 			for _, prm := range fn.Params {
@@ -775,137 +1458,189 @@ func c04R2(c *eng.Ctx, p *c04Preds) {
 				}
 				ok = ok && handed
 			}
-			c.Check("R2", fn, construct, ci.Pos(), ok, "the status error, the response writer and the request given to this helper must be the ones handed to "+shortName(callee))
+			c.Check("R2", fn, "error handed on unchanged", ci.Pos(), ok, "the status error, the response writer and the request given to this helper must be the ones handed to "+shortName(eng.FullName(ci)))
 		}
 	}
-	passThrough(c.MustMethod(pkgDispatcher, "dispatcher", "responseError"), pkgDispatcher+".responseError", "error handed on unchanged")
-	passThrough(c.MustFunc(pkgDispatcher, "responseError"), pkgResponse+".TerminateWithError", "error handed on unchanged")
 
-	// ---- TerminateWithError: Retry-After, then the Status through the codec
-	if tw := c.MustFunc(pkgResponse, "TerminateWithError"); tw != nil {
-		var errP, wP, reqP *ssa.Parameter
-		for _, prm := range tw.Params {
-			switch eng.TypeName(prm.Type()) {
-			case c04PkgAPIErrors + ".StatusError":
-				errP = prm
-			case "net/http.ResponseWriter":
-				wP = prm
-			case c04TRequest:
-				reqP = prm
-			}
-		}
-		if errP == nil || wP == nil || reqP == nil {
-			c.Fail("R2", tw, "TerminateWithError signature", tw.Pos(), "expected parameters (*StatusError, ResponseWriter, *Request)")
-			return
-		}
-		ofErr := func(v ssa.Value) bool {
-			if mi, ok := v.(*ssa.MakeInterface); ok {
-				v = mi.X
-			}
-			return v == ssa.Value(errP)
-		}
-		isEN := func(i ssa.Instruction) bool { return eng.IsPlainCall(i, c04PkgRespWriters+".ErrorNegotiated") }
-		isSetRA := func(i ssa.Instruction) bool {
-			if !eng.IsPlainCall(i, "(net/http.Header).Set") {
-				return false
-			}
-			ci := i.(ssa.CallInstruction)
-			k, ok := eng.StringConst(eng.Args(ci)[0])
-			if !ok || !strings.EqualFold(k, "Retry-After") {
-				return false
-			}
-			hc, _ := eng.CallResultOf(eng.Receiver(ci))
-			return hc != nil && eng.IsCall(hc, "(net/http.ResponseWriter).Header") && eng.Receiver(hc) == ssa.Value(wP)
-		}
-		// (a) the Status is written on every path, last, with the same error/writer/request
-		ens := eng.CallsTo(tw, c04PkgRespWriters+".ErrorNegotiated")
-		okEN := len(ens) == 1 && eng.ReachFromEntry(tw, eng.PathQuery{Target: eng.IsExit, Avoid: isEN}) == nil
-		if okEN {
-			a := ens[0].Common().Args
-			okEN = len(a) == 5 && ofErr(a[0]) && a[3] == ssa.Value(wP) && a[4] == ssa.Value(reqP) && eng.NeverAfter(ens[0], isSetRA)
-		}
-		c.Check("R2", tw, "Status written through ErrorNegotiated on every path, after the headers", tw.Pos(), okEN, "ErrorNegotiated(err, codecs, gv, w, req) must run exactly once on every path with the given error, writer and request, and no Retry-After may be set after it (headers are flushed by then)")
-
-		edgeSets := func(edges []*ssa.BasicBlock, val func(v ssa.Value) bool) bool {
-			if len(edges) == 0 {
-				return false
-			}
-			for _, e := range edges {
-				if eng.ReachFromBlock(e, eng.PathQuery{Target: func(i ssa.Instruction) bool { return isEN(i) || eng.IsExit(i) }, Avoid: isSetRA}) != nil {
-					return false
-				}
-				for _, s := range c04FirstFrom(e, isSetRA) {
-					if !val(eng.Args(s.(ssa.CallInstruction))[1]) {
-						return false
-					}
-				}
-			}
-			return true
-		}
-		// (b) 503 ⇒ Retry-After: <positive constant>
-		var e503 []*ssa.BasicBlock
-		for _, ci := range eng.CallsTo(tw, c04PkgAPIErrors+".IsServiceUnavailable") {
-			if a := eng.Args(ci); len(a) == 1 && ofErr(a[0]) {
-				e503 = append(e503, c04BoolEdges(eng.ResultValue(ci), true)...)
-			}
-		}
-		ok503 := edgeSets(e503, func(v ssa.Value) bool {
-			cc, _ := eng.CallResultOf(v)
-			if cc == nil || !eng.IsCall(cc, "strconv.Itoa") {
-				return false
-			}
-			k, isK := eng.IntConst(eng.Args(cc)[0])
-			return isK && k > 0
-		})
-		c.Check("R2", tw, "503 ⇒ Retry-After set before the Status is written", tw.Pos(), ok503, "on the IsServiceUnavailable(err) edge every path must set Retry-After (a positive number of seconds) on w.Header() before ErrorNegotiated")
-		// (c) 429 with a suggested delay ⇒ Retry-After: that delay
-		var e429 []*ssa.BasicBlock
-		var delay ssa.Value
-		for _, ci := range eng.CallsTo(tw, c04PkgAPIErrors+".SuggestsClientDelay") {
-			if a := eng.Args(ci); len(a) == 1 && ofErr(a[0]) {
-				is429 := func(v ssa.Value) bool {
-					cc, _ := eng.CallResultOf(v)
-					return cc != nil && eng.IsCall(cc, c04PkgAPIErrors+".IsTooManyRequests") && ofErr(eng.Args(cc)[0])
-				}
-				for _, e := range eng.ExtractOf(eng.ResultValue(ci), 1) {
-					for _, b := range c04BoolEdges(e, true) {
-						// the delay branch must itself sit on the IsTooManyRequests edge
-						under := false
-						for _, g := range eng.GuardsOfBlock(b) {
-							r := g.Rel()
-							if is429(r.X) && ((r.Op == token.EQL && eng.IsBoolConst(r.Y, true)) || (r.Op == token.NEQ && eng.IsBoolConst(r.Y, false))) {
-								under = true
-							}
-						}
-						if under {
-							e429 = append(e429, b)
-						}
-					}
-				}
-				for _, e := range eng.ExtractOf(eng.ResultValue(ci), 0) {
-					delay = e
-				}
-			}
-		}
-		sa := c.Slicer().WithArgs()
-		ok429 := delay != nil && edgeSets(e429, func(v ssa.Value) bool {
-			return sa.DerivesFrom(v, func(x ssa.Value) bool { return x == delay })
-		})
-		c.Check("R2", tw, "429 with suggested delay ⇒ Retry-After set before the Status is written", tw.Pos(), ok429, "on the IsTooManyRequests(err) ∧ SuggestsClientDelay(err) edge Retry-After must be set to the suggested delay before ErrorNegotiated")
-	}
+	c04RetryAfter(c, p)
 }
 
-// c04ConstInt returns the integer value of a package-level constant.
-func c04ConstInt(c *eng.Ctx, pkg, name string) (int64, bool) {
-	p, ok := c.W.All[pkg]
-	if !ok || p.Types == nil {
-		return 0, false
+// c04StatusWriter locates the function that writes the Status: response.TerminateWithError,
+// or — should it have been renamed — the function of the response package that takes the
+// error, the writer and the request and passes ErrorNegotiated on every path.
+func c04StatusWriter(c *eng.Ctx, p *c04Preds) *ssa.Function {
+	if f := c.W.Func(pkgResponse, "TerminateWithError"); f != nil && f.Blocks != nil {
+		return f
 	}
-	k, ok := p.Types.Scope().Lookup(name).(*types.Const)
-	if !ok {
-		return 0, false
+	for _, fn := range c.W.FuncsOf(pkgResponse) {
+		if !p.mustTerm[fn] || fn.Parent() != nil {
+			continue
+		}
+		n := 0
+		for _, prm := range fn.Params {
+			switch eng.TypeName(prm.Type()) {
+			case c04PkgAPIErrors + ".StatusError", "net/http.ResponseWriter", c04TRequest:
+				n++
+			}
+		}
+		if n == 3 {
+			for _, rf := range c.W.Region(fn) {
+				if len(eng.CallsTo(rf, c04PkgRespWriters+".ErrorNegotiated")) > 0 {
+					return fn
+				}
+			}
+		}
 	}
-	return eng.IntConst(ssa.NewConst(k.Val(), k.Type()))
+	c.Fail("engine", nil, "unresolved-anchor func "+pkgResponse+".TerminateWithError", 0, "no function of the response package writes a Status through ErrorNegotiated for a given (*StatusError, ResponseWriter, *Request)")
+	return nil
+}
+
+// c04RetryAfter: the function that writes the Status sets Retry-After first — for a 503, and
+// for a 429 that suggests a delay — and writes the Status through the codec exactly once.
+// Decided by forcing the classification of the error (IsServiceUnavailable /
+// IsTooManyRequests / SuggestsClientDelay of the given error) and enumerating every path
+// with the helpers of the response package interpreted, so it does not matter whether the
+// header value is chosen inline, by a helper returning (seconds, ok), or in a switch.
+func c04RetryAfter(c *eng.Ctx, p *c04Preds) {
+	tw := c04StatusWriter(c, p)
+	if tw == nil {
+		return
+	}
+	var errP, wP, reqP *ssa.Parameter
+	for _, prm := range tw.Params {
+		switch eng.TypeName(prm.Type()) {
+		case c04PkgAPIErrors + ".StatusError":
+			errP = prm
+		case "net/http.ResponseWriter":
+			wP = prm
+		case c04TRequest:
+			reqP = prm
+		}
+	}
+	if errP == nil || wP == nil || reqP == nil {
+		c.Fail("R2", tw, "TerminateWithError signature", tw.Pos(), "expected parameters (*StatusError, ResponseWriter, *Request)")
+		return
+	}
+	is := func(v ssa.Value, fr *eng.TraceFrame, prm *ssa.Parameter) bool {
+		r, _ := fr.Resolve(v)
+		return r == ssa.Value(prm)
+	}
+	isEN := func(e eng.TraceEvent) bool {
+		return e.Kind == eng.EvCall && eng.IsPlainCall(e.Ins, c04PkgRespWriters+".ErrorNegotiated")
+	}
+	isSetRA := func(e eng.TraceEvent) bool {
+		if e.Kind != eng.EvCall || !eng.IsPlainCall(e.Ins, "(net/http.Header).Set") {
+			return false
+		}
+		ci := e.Ins.(ssa.CallInstruction)
+		k, ok := eng.StringConst(eng.Args(ci)[0])
+		if !ok || !strings.EqualFold(k, "Retry-After") {
+			return false
+		}
+		hv, _ := e.Frame.Resolve(eng.Receiver(ci))
+		hc, _ := eng.CallResultOf(hv)
+		return hc != nil && eng.IsCall(hc, "(net/http.ResponseWriter).Header") && is(eng.Receiver(hc), e.Frame, wP)
+	}
+	classify := func(vals map[string]map[int]eng.AV) func(*ssa.Call, int, *eng.TraceFrame, *eng.State) (eng.AV, bool) {
+		return func(cc *ssa.Call, idx int, fr *eng.TraceFrame, _ *eng.State) (eng.AV, bool) {
+			m, ok := vals[eng.FullName(cc)]
+			if !ok || len(cc.Call.Args) != 1 || !is(cc.Call.Args[0], fr, errP) {
+				return eng.AV{}, false
+			}
+			av, ok := m[idx]
+			return av, ok
+		}
+	}
+	run := func(pin func(*ssa.Call, int, *eng.TraceFrame, *eng.State) (eng.AV, bool)) ([]eng.TracedPath, error) {
+		tr := &eng.Tracer{
+			In:  &eng.Interp{W: c.W, Depth: eng.LiftDepth + 1, MaxPaths: 1 << 12},
+			Pin: pin,
+			Follow: func(_ *ssa.Call, callee *ssa.Function, _ *eng.TraceFrame) bool {
+				return p.scope[callee] && callee.Pkg == tw.Pkg
+			},
+			WantArgs: func(ci ssa.CallInstruction) bool { return eng.IsCall(ci, "strconv.Itoa") },
+		}
+		return tr.Run(tw, nil)
+	}
+	// (a) the Status is written on every path, last, with the same error/writer/request
+	paths, err := run(nil)
+	okEN := err == nil && len(paths) > 0
+	for _, tp := range paths {
+		n := 0
+		for i, e := range tp.Events {
+			if !isEN(e) {
+				continue
+			}
+			n++
+			a := e.Ins.(ssa.CallInstruction).Common().Args
+			okEN = okEN && len(a) == 5 && is(a[0], e.Frame, errP) && is(a[3], e.Frame, wP) && is(a[4], e.Frame, reqP)
+			for _, later := range tp.Events[i+1:] {
+				okEN = okEN && !isSetRA(later)
+			}
+		}
+		okEN = okEN && n == 1 && !tp.LoopCut && !tp.Panicked
+	}
+	c.Check("R2", tw, "Status written through ErrorNegotiated on every path, after the headers", tw.Pos(), okEN, "ErrorNegotiated(err, codecs, gv, w, req) must run exactly once on every path with the given error, writer and request, and no Retry-After may be set after it (headers are flushed by then)")
+
+	// every path under the forcing sets Retry-After (a value accepted by val) before the Status
+	sets := func(pin func(*ssa.Call, int, *eng.TraceFrame, *eng.State) (eng.AV, bool), val func(tp *eng.TracedPath, at int, v ssa.Value) bool) bool {
+		paths, err := run(pin)
+		if err != nil || len(paths) == 0 {
+			return false
+		}
+		for pi := range paths {
+			tp := &paths[pi]
+			set := false
+			for i, e := range tp.Events {
+				if isEN(e) {
+					break
+				}
+				if isSetRA(e) {
+					if !val(tp, i, eng.Args(e.Ins.(ssa.CallInstruction))[1]) {
+						return false
+					}
+					set = true
+				}
+			}
+			if !set {
+				return false
+			}
+		}
+		return true
+	}
+	const (
+		is503   = c04PkgAPIErrors + ".IsServiceUnavailable"
+		is429   = c04PkgAPIErrors + ".IsTooManyRequests"
+		suggest = c04PkgAPIErrors + ".SuggestsClientDelay"
+	)
+	// (b) 503 ⇒ Retry-After: <positive constant>
+	ok503 := sets(classify(map[string]map[int]eng.AV{is503: {-1: eng.AVBool(true)}, is429: {-1: eng.AVBool(false)}}),
+		func(tp *eng.TracedPath, at int, v ssa.Value) bool {
+			// the value is strconv.Itoa(k) with k a positive constant on this path
+			rv, rf := tp.Events[at].Frame.Resolve(v)
+			for j := at - 1; j >= 0; j-- {
+				e := tp.Events[j]
+				if iv, isIns := rv.(ssa.Instruction); e.Kind == eng.EvCall && isIns && e.Ins == iv && e.Frame == rf {
+					if !eng.IsCall(e.Ins, "strconv.Itoa") || len(e.Args) != 1 || e.Args[0].K != eng.ConstV {
+						return false
+					}
+					k, isInt := constant.Int64Val(e.Args[0].C)
+					return isInt && k > 0
+				}
+			}
+			return false
+		})
+	c.Check("R2", tw, "503 ⇒ Retry-After set before the Status is written", tw.Pos(), ok503, "for an error that IsServiceUnavailable every path must set Retry-After (a positive number of seconds) on w.Header() before ErrorNegotiated")
+	// (c) 429 with a suggested delay ⇒ Retry-After: that delay
+	sa := c.Slicer().WithArgs()
+	ok429 := sets(classify(map[string]map[int]eng.AV{is429: {-1: eng.AVBool(true)}, is503: {-1: eng.AVBool(false)}, suggest: {1: eng.AVBool(true)}}),
+		func(tp *eng.TracedPath, at int, v ssa.Value) bool {
+			return p.derives(sa, v, c04InFrame(tp, tp.Events[at].Frame), 4, func(x ssa.Value) bool {
+				cc, idx := eng.CallResultOf(x)
+				return cc != nil && idx == 0 && eng.IsCall(cc, suggest)
+			})
+		})
+	c.Check("R2", tw, "429 with suggested delay ⇒ Retry-After set before the Status is written", tw.Pos(), ok429, "for an error that IsTooManyRequests and SuggestsClientDelay, Retry-After must be set to the suggested delay before ErrorNegotiated")
 }
 
 // ---- R3 --------------------------------------------------------------------------------
@@ -913,25 +1648,17 @@ func c04ConstInt(c *eng.Ctx, pkg, name string) (int64, bool) {
 // and end-to-end headers … and the upstream's status code, headers and body are relayed to
 // the client unchanged". Decided as a who-may-write table over the forwarding packages.
 
-// c04HopKey reports whether a header key value ranges over the hopHeaders table or is a
-// token taken from the message's own Connection header (RFC 7230 §6.1).
-func c04HopKey(c *eng.Ctx, key ssa.Value) bool {
-	return c.Slicer().DerivesFrom(key, func(v ssa.Value) bool {
-		g, ok := v.(*ssa.Global)
-		return ok && g.Name() == "hopHeaders" && g.Pkg != nil && g.Pkg.Pkg.Path() == pkgRevProxy
-	})
-}
-
 // c04DelegatingBody reports whether the value stored into req.Body is a reader that wraps
 // the previous body of the same request and hands its bytes on unchanged: a struct with an
 // embedded io.ReadCloser initialised from req.Body whose Read returns exactly what the
 // embedded reader's Read(p) returned and whose Close is the promoted one.
 func c04DelegatingBody(c *eng.Ctx, st *ssa.Store, reqBase ssa.Value) (bool, string) {
-	v := st.Val
-	if mi, ok := v.(*ssa.MakeInterface); ok {
-		v = mi.X
-	}
-	al, ok := v.(*ssa.Alloc)
+	// the wrapper may be built in place or by a constructor helper of the same package that is
+	// handed the previous body: resolve through the helper's return into its body, keeping the
+	// calling context so that the helper's parameter is the caller's argument
+	samePkg := func(f *ssa.Function) bool { return f.Pkg != nil && f.Pkg == st.Parent().Pkg }
+	rv := c04ResolveIn(st.Val, nil, samePkg)
+	al, ok := rv.v.(*ssa.Alloc)
 	if !ok {
 		return false, "the new body is not a wrapper built in place"
 	}
@@ -954,9 +1681,10 @@ func c04DelegatingBody(c *eng.Ctx, st *ssa.Store, reqBase ssa.Value) (bool, stri
 	}
 	tn := eng.TypeName(named)
 	inited := false
-	for _, s2 := range eng.StoresToField([]*ssa.Function{st.Parent()}, tn, emb) {
+	for _, s2 := range eng.StoresToField([]*ssa.Function{al.Parent()}, tn, emb) {
 		if fa := s2.Addr.(*ssa.FieldAddr); fa.X == ssa.Value(al) {
-			inited = eng.FieldLoadOf(s2.Val, c04TRequest, "Body") && c04SameObj(c04LoadBase(s2.Val), reqBase)
+			src := c04ResolveIn(s2.Val, rv.ch, samePkg).v
+			inited = eng.FieldLoadOf(src, c04TRequest, "Body") && c04SameObj(c04LoadBase(src), reqBase)
 		}
 	}
 	if !inited {
@@ -1056,6 +1784,171 @@ func c04SameCellLoad(a, b ssa.Value) bool {
 	return reaches && eng.ReachAfter(la, eng.PathQuery{Target: isStore, Avoid: func(i ssa.Instruction) bool { return i == ssa.Instruction(lb) }}) == nil
 }
 
+// c04Val is a value together with the calling context (innermost first) of the function it
+// belongs to.
+type c04Val struct {
+	v  ssa.Value
+	ch eng.UpChain
+}
+
+// c04ResolveIn rewrites v — a value of the function whose calling context is ch — towards
+// the value it denotes: conversions are stripped, a spilled value (local with one store) is
+// the stored value, a parameter bound by the context is the caller's argument (continued in
+// the caller's context), and the result of a helper (accepted by inRegion) all of whose
+// non-nil returns yield one and the same value is that value (continued inside the helper).
+func c04ResolveIn(v ssa.Value, ch eng.UpChain, inRegion func(*ssa.Function) bool) c04Val {
+	for i := 0; i < 32 && v != nil; i++ {
+		switch x := v.(type) {
+		case *ssa.MakeInterface:
+			v = x.X
+			continue
+		case *ssa.ChangeInterface:
+			v = x.X
+			continue
+		case *ssa.ChangeType:
+			v = x.X
+			continue
+		case *ssa.Parameter:
+			bound := false
+			for k, s := range ch {
+				if s.Fn == x.Parent() {
+					if b := s.Bind(x); b != nil {
+						v, ch, bound = b, ch[k+1:], true
+					}
+					break
+				}
+			}
+			if bound {
+				continue
+			}
+		case *ssa.UnOp:
+			if x.Op == token.MUL {
+				if cell, ok := x.X.(*ssa.Alloc); ok {
+					if sv := c04SingleStore(cell); sv != nil {
+						v = sv
+						continue
+					}
+				}
+			}
+		case *ssa.Call, *ssa.Extract:
+			cc, idx := eng.CallResultOf(v)
+			if cc == nil {
+				break
+			}
+			callee := cc.Call.StaticCallee()
+			if callee == nil || callee.Blocks == nil || inRegion == nil || !inRegion(callee) {
+				break
+			}
+			if idx < 0 {
+				idx = 0
+			}
+			var same ssa.Value
+			ok := true
+			eng.Instrs(callee, func(ins ssa.Instruction) {
+				r, isR := ins.(*ssa.Return)
+				if !isR || r.Block() == callee.Recover {
+					return
+				}
+				rs := eng.ReturnResults(r)
+				if idx >= len(rs) {
+					ok = false
+					return
+				}
+				rv := rs[idx]
+				if eng.IsNilConst(rv) {
+					return
+				}
+				if same != nil && same != rv {
+					ok = false
+				}
+				same = rv
+			})
+			if ok && same != nil {
+				v = same
+				ch = append(eng.UpChain{{Fn: callee, Call: cc, Direct: true}}, ch...)
+				continue
+			}
+		}
+		break
+	}
+	return c04Val{v, ch}
+}
+
+// c04SingleStore returns the value stored into a local cell that is written exactly once
+// (and never handed out by address), nil otherwise.
+func c04SingleStore(a *ssa.Alloc) ssa.Value {
+	if a.Referrers() == nil {
+		return nil
+	}
+	var val ssa.Value
+	for _, r := range *a.Referrers() {
+		switch u := r.(type) {
+		case *ssa.Store:
+			if u.Addr != ssa.Value(a) || val != nil {
+				return nil
+			}
+			val = u.Val
+		case *ssa.UnOp, *ssa.DebugRef:
+		default:
+			return nil
+		}
+	}
+	return val
+}
+
+// c04MayReachUp: some path from ins reaches an instruction satisfying pred — in ins's own
+// function (a call of a helper in which pred is reachable counts), or, when that function is
+// a helper, after one of its call sites (recursively up to the anchor).
+func c04MayReachUp(c *eng.Ctx, anchor *ssa.Function, ins ssa.Instruction, pred func(ssa.Instruction) bool) bool {
+	px := eng.LiftMay(pred)
+	var rec func(i ssa.Instruction, depth int) bool
+	rec = func(i ssa.Instruction, depth int) bool {
+		if eng.ReachAfter(i, eng.PathQuery{Target: px}) != nil {
+			return true
+		}
+		if i.Parent() == anchor || depth <= 0 {
+			return false
+		}
+		sites := c.W.GuardSites(i.Parent())
+		if len(sites) == 0 {
+			return true // callers unknown: assume it can
+		}
+		for _, s := range sites {
+			if rec(s, depth-1) {
+				return true
+			}
+		}
+		return false
+	}
+	return rec(ins, eng.LiftDepth)
+}
+
+// c04AlwaysAfterUp: every path from ins to the exit of the anchor passes pred — inside ins's
+// own function, or, when that function is a helper of the anchor's region and some path
+// through it ends without pred, after each of its call sites (recursively).
+func c04AlwaysAfterUp(c *eng.Ctx, anchor *ssa.Function, ins ssa.Instruction, pred func(ssa.Instruction) bool) bool {
+	var rec func(i ssa.Instruction, depth int) bool
+	rec = func(i ssa.Instruction, depth int) bool {
+		if eng.AlwaysAfter(i, pred) {
+			return true
+		}
+		if i.Parent() == anchor || depth <= 0 {
+			return false
+		}
+		sites := c.W.GuardSites(i.Parent())
+		if len(sites) == 0 {
+			return false
+		}
+		for _, s := range sites {
+			if _, plain := s.(*ssa.Call); !plain || !rec(s, depth-1) {
+				return false
+			}
+		}
+		return true
+	}
+	return rec(ins, eng.LiftDepth)
+}
+
 func c04R3(c *eng.Ctx, p *c04Preds) {
 	// ---- (a) stores into http.Request fields in the forwarding packages
 	n := map[string]int{}
@@ -1112,11 +2005,22 @@ func c04R3(c *eng.Ctx, p *c04Preds) {
 					why = "field " + field + " of the request must reach the upstream as received (Method, Host, ContentLength, … are never written)"
 				}
 				c.Check("R3", fn, construct, st.Pos(), okSt, why)
+				// a store that sits in a helper shared by several callers (duplicate request
+				// preparation merged into one function) stands for one store per calling context:
+				// the rule's instance count follows the contexts, not the source lines
+				for k := 2; k <= len(c.W.UpChains(fn, nil)); k++ {
+					c.Check("R3", fn, fmt.Sprintf("%s @context#%d", construct, k), st.Pos(), okSt, why)
+				}
 			})
 		}
 	}
 
-	// ---- (b) the relay in ReverseProxy.ServeHTTP
+	// ---- (b) the relay in ReverseProxy.ServeHTTP. The body of ServeHTTP may be spread over
+	// helpers (header preparation, hop-by-hop stripping, the relay tail …): every construct is
+	// looked for in the Region of ServeHTTP and its operands are resolved through the calling
+	// context of the helper they sit in (a parameter is the caller's argument, the result of a
+	// helper that hands a value through is that value), so "the response of RoundTrip", "the
+	// outbound request", "the client's writer" keep their identity wherever they are used.
 	sh := c.MustMethod(pkgRevProxy, "ReverseProxy", "ServeHTTP")
 	if sh == nil {
 		return
@@ -1130,37 +2034,94 @@ func c04R3(c *eng.Ctx, p *c04Preds) {
 			reqP = prm
 		}
 	}
-	rts := eng.CallsTo(sh, "(net/http.RoundTripper).RoundTrip")
-	if len(rts) != 1 || rwP == nil || reqP == nil || eng.InLoop(rts[0].Block()) {
+	region := c.W.Region(sh)
+	inRegion := map[*ssa.Function]bool{}
+	for _, f := range region {
+		inRegion[f] = true
+	}
+	// the calling contexts of a function of the region that end in ServeHTTP
+	chainMemo := map[*ssa.Function][]eng.UpChain{}
+	chainsOf := func(fn *ssa.Function) []eng.UpChain {
+		if chs, ok := chainMemo[fn]; ok {
+			return chs
+		}
+		var out []eng.UpChain
+		if fn == sh {
+			out = []eng.UpChain{nil}
+		} else {
+			for _, ch := range c.W.UpChains(fn, func(f *ssa.Function) bool { return f == sh }) {
+				if ch.Top(fn) == sh {
+					out = append(out, ch)
+				}
+			}
+		}
+		chainMemo[fn] = out
+		return out
+	}
+	resolveV := func(v ssa.Value, ch eng.UpChain) c04Val {
+		return c04ResolveIn(v, ch, func(f *ssa.Function) bool { return inRegion[f] })
+	}
+	resolve := func(v ssa.Value, ch eng.UpChain) ssa.Value { return resolveV(v, ch).v }
+	// all: pred holds for ins's operands in every context of its function (at least one)
+	all := func(ins ssa.Instruction, pred func(ch eng.UpChain) bool) bool {
+		chs := chainsOf(ins.Parent())
+		for _, ch := range chs {
+			if !pred(ch) {
+				return false
+			}
+		}
+		return len(chs) > 0
+	}
+	var rts []ssa.CallInstruction
+	for _, fn := range region {
+		rts = append(rts, eng.CallsTo(fn, "(net/http.RoundTripper).RoundTrip")...)
+	}
+	single := len(rts) == 1 && rwP != nil && reqP != nil && !eng.InLoop(rts[0].Block()) && len(chainsOf(rts[0].Parent())) == 1
+	if single {
+		for _, s := range chainsOf(rts[0].Parent())[0] {
+			single = single && !eng.InLoop(s.Call.Block())
+		}
+	}
+	if !single {
 		c.Fail("R3", sh, "single RoundTrip", sh.Pos(), fmt.Sprintf("expected exactly one RoundTrip outside loops, found %d", len(rts)))
 		return
 	}
 	rt := rts[0].(*ssa.Call)
+	rtCh := chainsOf(rt.Parent())[0]
 	var res ssa.Value
 	for _, e := range eng.ExtractOf(rt, 0) {
 		res = e
 	}
-	outreq := eng.Args(rt)[0]
+	outreq := resolve(eng.Args(rt)[0], rtCh)
 	cl, _ := eng.CallResultOf(outreq)
-	c.Check("R3", sh, "outbound request = incoming.Clone(ctx)", rt.Pos(), cl != nil && eng.IsCall(cl, "(*net/http.Request).Clone") && eng.Receiver(cl) == ssa.Value(reqP),
+	outV := resolveV(eng.Args(rt)[0], rtCh)
+	c.Check("R3", sh, "outbound request = incoming.Clone(ctx)", rt.Pos(), cl != nil && eng.IsCall(cl, "(*net/http.Request).Clone") && resolve(eng.Receiver(cl), outV.ch) == ssa.Value(reqP),
 		"the request given to RoundTrip must be a Clone of the incoming request (method, host, body, headers copied by net/http)")
 	if res == nil {
 		c.Fail("R3", sh, "response of RoundTrip used", rt.Pos(), "the response of RoundTrip is dropped")
 		return
 	}
-	ofRes := func(v ssa.Value, field string) bool {
-		return eng.FieldLoadOf(v, c04TResponse, field) && c04LoadBase(v) == res
+	isRes := func(v ssa.Value, ch eng.UpChain) bool { return v != nil && resolve(v, ch) == res }
+	// ofRes / ofOutreq: v (in context ch) denotes field `field` of the response / of the outbound request
+	ofRes := func(v ssa.Value, field string, ch eng.UpChain) bool {
+		r := resolveV(v, ch)
+		return eng.FieldLoadOf(r.v, c04TResponse, field) && isRes(c04LoadBase(r.v), r.ch)
 	}
-	isRWHeader := func(v ssa.Value) bool {
-		cc, _ := eng.CallResultOf(v)
-		return cc != nil && eng.IsCall(cc, "(net/http.ResponseWriter).Header") && eng.Receiver(cc) == ssa.Value(rwP)
+	ofOutreq := func(v ssa.Value, field string, ch eng.UpChain) bool {
+		r := resolveV(v, ch)
+		return eng.FieldLoadOf(r.v, c04TRequest, field) && c04LoadBase(r.v) != nil && resolve(c04LoadBase(r.v), r.ch) == outreq
+	}
+	isRWHeader := func(v ssa.Value, ch eng.UpChain) bool {
+		r := resolveV(v, ch)
+		cc, _ := eng.CallResultOf(r.v)
+		return cc != nil && eng.IsCall(cc, "(net/http.ResponseWriter).Header") && resolve(eng.Receiver(cc), r.ch) == ssa.Value(rwP)
 	}
 	isCopyHdr := func(i ssa.Instruction) bool {
 		if !eng.IsPlainCall(i, pkgRevProxy+".copyHeader") {
 			return false
 		}
 		a := eng.Args(i.(ssa.CallInstruction))
-		return len(a) == 2 && isRWHeader(a[0]) && ofRes(a[1], "Header")
+		return len(a) == 2 && all(i, func(ch eng.UpChain) bool { return isRWHeader(a[0], ch) && ofRes(a[1], "Header", ch) })
 	}
 	isCopyBody := func(i ssa.Instruction) bool {
 		if !eng.IsPlainCall(i, "(*"+c04TRevProxy+").copyResponse") {
@@ -1168,64 +2129,112 @@ func c04R3(c *eng.Ctx, p *c04Preds) {
 		}
 		a := eng.Args(i.(ssa.CallInstruction))
 		sl := c.Slicer()
-		return len(a) == 3 && sl.DerivesFrom(a[0], func(v ssa.Value) bool { return v == ssa.Value(rwP) }) &&
-			sl.DerivesFrom(a[1], func(v ssa.Value) bool { return ofRes(v, "Body") })
+		return len(a) == 3 && all(i, func(ch eng.UpChain) bool {
+			return ch.DerivesFrom(sl, a[0], func(v ssa.Value) bool { return v == ssa.Value(rwP) }) &&
+				ch.DerivesFrom(sl, a[1], func(v ssa.Value) bool {
+					return eng.FieldLoadOf(v, c04TResponse, "Body") && (c04LoadBase(v) == res || isRes(c04LoadBase(v), ch))
+				})
+		})
 	}
 	// status
 	nWH := 0
-	for _, ci := range eng.CallsTo(sh, "(net/http.ResponseWriter).WriteHeader") {
-		if eng.Receiver(ci) != ssa.Value(rwP) {
-			continue
+	for _, fn := range region {
+		for _, ci := range eng.CallsTo(fn, "(net/http.ResponseWriter).WriteHeader") {
+			if !all(ci, func(ch eng.UpChain) bool { return resolve(eng.Receiver(ci), ch) == ssa.Value(rwP) }) {
+				continue
+			}
+			nWH++
+			a := eng.Args(ci)
+			c.Check("R3", sh, fmt.Sprintf("relayed status#%d = res.StatusCode", nWH), ci.Pos(), len(a) == 1 && all(ci, func(ch eng.UpChain) bool { return ofRes(a[0], "StatusCode", ch) }),
+				"the status written to the client must be the upstream's StatusCode")
+			c.Check("R3", sh, fmt.Sprintf("relayed status#%d after copyHeader(rw.Header(), res.Header)", nWH), ci.Pos(), eng.AlwaysBefore(fn, ci, isCopyHdr), "every path to WriteHeader must first copy the upstream's headers into the client response")
+			c.Check("R3", sh, fmt.Sprintf("relayed status#%d followed by copyResponse(rw, res.Body)", nWH), ci.Pos(), c04AlwaysAfterUp(c, sh, ci, isCopyBody), "after the status every path must stream the upstream's body to the client")
 		}
-		nWH++
-		a := eng.Args(ci)
-		c.Check("R3", sh, fmt.Sprintf("relayed status#%d = res.StatusCode", nWH), ci.Pos(), len(a) == 1 && ofRes(a[0], "StatusCode"), "the status written to the client must be the upstream's StatusCode")
-		c.Check("R3", sh, fmt.Sprintf("relayed status#%d after copyHeader(rw.Header(), res.Header)", nWH), ci.Pos(), eng.AlwaysBefore(sh, ci, isCopyHdr), "every path to WriteHeader must first copy the upstream's headers into the client response")
-		c.Check("R3", sh, fmt.Sprintf("relayed status#%d followed by copyResponse(rw, res.Body)", nWH), ci.Pos(), eng.AlwaysAfter(ci, isCopyBody), "after the status every path must stream the upstream's body to the client")
 	}
 	if nWH == 0 {
 		c.Fail("R3", sh, "relayed status = res.StatusCode", sh.Pos(), "the upstream's status is never written to the client")
 	}
 	c04CopyHeader(c)
 	// no store into the response, header mutations only for hop-by-hop keys
-	okStore := true
-	eng.Instrs(sh, func(ins ssa.Instruction) {
-		if st, ok := ins.(*ssa.Store); ok {
-			if fa, ok := st.Addr.(*ssa.FieldAddr); ok && fa.X == res {
-				okStore = false
-			}
+	// (a store from which no relaying write is reachable any more — the upgrade path nils the
+	// body it has taken over and returns — cannot change what the client receives)
+	isRelay := func(i ssa.Instruction) bool {
+		if isCopyHdr(i) || isCopyBody(i) {
+			return true
 		}
-	})
-	c.Check("R3", sh, "no field of the upstream response is overwritten before the relay", rt.Pos(), okStore, "res.StatusCode/Header/Body must be relayed as received")
-	hdrMut := func(base func(v ssa.Value) bool, what string, allowed map[string]bool) {
-		k := 0
-		for _, ci := range eng.CallsTo(sh, "(net/http.Header).Del", "(net/http.Header).Set", "(net/http.Header).Add") {
-			if !base(eng.Receiver(ci)) {
-				continue
+		ci, ok := i.(*ssa.Call)
+		return ok && eng.IsCall(ci, "(net/http.ResponseWriter).WriteHeader", "(net/http.ResponseWriter).Write") &&
+			all(ci, func(ch eng.UpChain) bool { return resolve(eng.Receiver(ci), ch) == ssa.Value(rwP) })
+	}
+	okStore := true
+	for _, fn := range region {
+		eng.Instrs(fn, func(ins ssa.Instruction) {
+			if st, ok := ins.(*ssa.Store); ok {
+				if fa, ok := st.Addr.(*ssa.FieldAddr); ok && eng.TypeName(fa.X.Type()) == c04TResponse {
+					for _, ch := range chainsOf(fn) {
+						if isRes(fa.X, ch) && c04MayReachUp(c, sh, st, isRelay) {
+							okStore = false
+						}
+					}
+				}
 			}
-			k++
-			key := eng.Args(ci)[0]
-			ks, isK := eng.StringConst(key)
-			ok := (isK && allowed[ks]) || (!isK && eng.IsCall(ci, "(net/http.Header).Del") && c04HopKey(c, key))
-			c.Check("R3", sh, fmt.Sprintf("%s header mutation#%d is hop-by-hop / allow-listed", what, k), ci.Pos(), ok, "only hop-by-hop headers (hopHeaders table) may be deleted and only the allow-listed keys set; any other end-to-end header must cross the gateway unchanged")
+		})
+	}
+	c.Check("R3", sh, "no field of the upstream response is overwritten before the relay", rt.Pos(), okStore, "res.StatusCode/Header/Body must be relayed as received")
+	rch := c.W.Func(pkgRevProxy, "removeConnectionHeaders")
+	hdrMut := func(base func(v ssa.Value, ch eng.UpChain) bool, what string, allowed map[string]bool) {
+		k := 0
+		for _, fn := range region {
+			if fn == rch {
+				continue // decided by its own rule below: only Connection-listed tokens
+			}
+			for _, ci := range eng.CallsTo(fn, "(net/http.Header).Del", "(net/http.Header).Set", "(net/http.Header).Add") {
+				// one obligation per context in which the mutated header is the one in question
+				for _, ch := range chainsOf(fn) {
+					if !base(eng.Receiver(ci), ch) {
+						continue
+					}
+					k++
+					key := eng.Args(ci)[0]
+					ks, isK := eng.StringConst(resolve(key, ch))
+					hop := func() bool {
+						sl := c.Slicer()
+						return ch.DerivesFrom(sl, key, func(v ssa.Value) bool {
+							g, ok := v.(*ssa.Global)
+							return ok && g.Name() == "hopHeaders" && g.Pkg != nil && g.Pkg.Pkg.Path() == pkgRevProxy
+						})
+					}
+					ok := (isK && allowed[ks]) || (!isK && eng.IsCall(ci, "(net/http.Header).Del") && hop())
+					c.Check("R3", sh, fmt.Sprintf("%s header mutation#%d is hop-by-hop / allow-listed", what, k), ci.Pos(), ok, "only hop-by-hop headers (hopHeaders table) may be deleted and only the allow-listed keys set; any other end-to-end header must cross the gateway unchanged")
+				}
+			}
 		}
 		if k == 0 {
 			c.Fail("R3", sh, what+" header mutation is hop-by-hop / allow-listed", sh.Pos(), "no hop-by-hop header removal found")
 		}
 	}
-	hdrMut(func(v ssa.Value) bool { return ofRes(v, "Header") }, "response", map[string]bool{})
-	hdrMut(func(v ssa.Value) bool { return eng.FieldLoadOf(v, c04TRequest, "Header") && c04LoadBase(v) == outreq }, "request",
+	hdrMut(func(v ssa.Value, ch eng.UpChain) bool { return ofRes(v, "Header", ch) }, "response", map[string]bool{})
+	hdrMut(func(v ssa.Value, ch eng.UpChain) bool { return ofOutreq(v, "Header", ch) }, "request",
 		map[string]bool{"Te": true, "Connection": true, "Upgrade": true, "X-Forwarded-For": true})
-	// functions that receive the response header as a whole
-	for _, ci := range eng.Calls(sh) {
-		for i, a := range ci.Common().Args {
-			if !ofRes(a, "Header") {
-				continue
-			}
-			ok := eng.IsCall(ci, pkgRevProxy+".removeConnectionHeaders") || (eng.IsCall(ci, pkgRevProxy+".copyHeader") && i == 1) ||
-				eng.IsCall(ci, "(net/http.Header).Del", "(net/http.Header).Get", "(net/http.Header).Values")
-			if !ok {
-				c.Fail("R3", sh, "res.Header handed to "+c04CallLabel(ci), ci.Pos(), "the upstream's header may only be read, stripped of hop-by-hop keys and copied to the client")
+	// functions that receive the response header as a whole: the helpers of the region are
+	// covered by the scan above (their body is part of it); anything else must be on the list
+	for _, fn := range region {
+		for _, ci := range eng.Calls(fn) {
+			for i, a := range ci.Common().Args {
+				hit := false
+				for _, ch := range chainsOf(fn) {
+					hit = hit || ofRes(a, "Header", ch)
+				}
+				if !hit {
+					continue
+				}
+				callee := eng.CalleeFn(ci)
+				ok := eng.IsCall(ci, pkgRevProxy+".removeConnectionHeaders") || (eng.IsCall(ci, pkgRevProxy+".copyHeader") && i == 1) ||
+					eng.IsCall(ci, "(net/http.Header).Del", "(net/http.Header).Get", "(net/http.Header).Values") ||
+					(callee != nil && inRegion[callee] && callee != sh)
+				if !ok {
+					c.Fail("R3", sh, "res.Header handed to "+c04CallLabel(ci), ci.Pos(), "the upstream's header may only be read, stripped of hop-by-hop keys and copied to the client")
+				}
 			}
 		}
 	}
@@ -1249,17 +2258,22 @@ func c04R3(c *eng.Ctx, p *c04Preds) {
 	// no response-modifying hook is installed anywhere
 	sts := eng.StoresToField(c.W.AllRepoFuncs(), c04TRevProxy, "ModifyResponse")
 	c.Check("R3", sh, "no ModifyResponse hook installed", sh.Pos(), len(sts) == 0, "a ModifyResponse hook could rewrite status, headers or body of every relayed response")
-	// the dispatcher does not ask for the CORS-stripping/URL-rewriting transport wrapper
-	if dsh := c.MustMethod(pkgDispatcher, "dispatcher", "ServeHTTP"); dsh != nil {
-		calls := eng.CallsTo(dsh, pkgDispatcher+".NewUpgradeAwareHandler")
-		if len(calls) == 0 {
-			c.Fail("R3", dsh, "proxy handler built without transport wrapping", dsh.Pos(), "NewUpgradeAwareHandler is not called")
-		}
-		for _, ci := range calls {
+	// the dispatcher does not ask for the CORS-stripping/URL-rewriting transport wrapper: every
+	// construction of the proxy handler — wherever in the repository it is written — passes
+	// wrapTransport=false and upgradeRequired=false (reported against the handler the
+	// constructing function runs as a part of)
+	nUA := 0
+	for _, fn := range c.W.AllRepoFuncs() {
+		for _, ci := range eng.CallsTo(fn, pkgDispatcher+".NewUpgradeAwareHandler") {
+			nUA++
 			a := eng.Args(ci)
-			c.Check("R3", dsh, "proxy handler built without transport wrapping", ci.Pos(), len(a) == 6 && eng.IsBoolConst(a[3], false) && eng.IsBoolConst(a[4], false),
+			isFalse := func(v ssa.Value) bool { return eng.IsBoolConst(c.W.ResolveUp(v), false) }
+			c.Check("R3", c04Roots(c, fn)[0], "proxy handler built without transport wrapping", ci.Pos(), len(a) == 6 && isFalse(a[3]) && isFalse(a[4]),
 				"wrapTransport=true routes responses through corsRemovingTransport/proxy.Transport which delete CORS headers and rewrite bodies; upgradeRequired=true refuses plain requests")
 		}
+	}
+	if nUA == 0 {
+		c.Fail("R3", nil, "proxy handler built without transport wrapping", 0, "NewUpgradeAwareHandler is not called anywhere in the repository")
 	}
 }
 
@@ -1407,6 +2421,51 @@ func badSecondWrite(h H, w *W, r *R, bad bool) {
 	if bad { fail(w, 500); fail(w, 503); return }
 	h.Serve(w, r)
 }
+
+// shapes for the traced forcing (eng.Tracer): the refusal sits in a helper that reports it
+// by a flag, by a sentinel error, by a nil value, or hands the error to answer with back
+type E struct{ code int }
+var errAnswered = mkErr(0)
+func mkErr(code int) *E { return &E{code} }
+func admit(w *W, ok bool) bool {
+	if ok { return true }
+	fail(w, 429)
+	return false
+}
+func admitErr(w *W, ok bool) *E {
+	if !ok { fail(w, 429); return errAnswered }
+	return nil
+}
+func pick(ok bool) (*R, *E) {
+	if !ok { return nil, mkErr(503) }
+	return &R{}, nil
+}
+func traceFlag(h H, w *W, r *R, ok bool) {
+	if admitted := admit(w, ok); !admitted { return }
+	h.Serve(w, r)
+}
+func traceFlagBad(h H, w *W, r *R, ok bool) {
+	admit(w, ok)
+	h.Serve(w, r)
+}
+func traceSentinel(h H, w *W, r *R, ok bool) {
+	if err := admitErr(w, ok); err != nil { return }
+	h.Serve(w, r)
+}
+func traceTuple(h H, w *W, ok bool) {
+	r, e := pick(ok)
+	switch {
+	case e != nil:
+		fail(w, e.code)
+		return
+	}
+	h.Serve(w, r)
+}
+func traceTupleBad(h H, w *W, ok bool) {
+	r, e := pick(ok)
+	if e != nil && r != nil { fail(w, e.code); return }
+	h.Serve(w, r)
+}
 `
 
 func c04Fixtures(c *eng.Ctx) {
@@ -1444,6 +2503,52 @@ func c04Fixtures(c *eng.Ctx) {
 			got = fmt.Sprint(all)
 		}
 		c.Fixture("C04.typestate/"+tc.name, fmt.Sprint(tc.want), got)
+	}
+	// traced forcing: with ok=false every path answers and then forwards nothing — wherever the
+	// refusal sits and however it is reported to the caller
+	isServe := func(ci ssa.CallInstruction) bool { return eng.IsCall(ci, "(fx.H).Serve") }
+	for _, tc := range []struct {
+		name  string
+		okArg int
+		want  string
+	}{
+		{"traceFlag", 3, "answered"}, {"traceFlagBad", 3, "answered then forwarded"}, {"traceSentinel", 3, "answered"},
+		{"traceTuple", 2, "answered"}, {"traceTupleBad", 2, "forwarded unanswered"},
+	} {
+		fn := p.Func(tc.name)
+		args := make([]eng.AV, len(fn.Params))
+		args[tc.okArg] = eng.AVBool(false)
+		tr := &eng.Tracer{
+			In:           &eng.Interp{Depth: 3, MaxPaths: 256},
+			Follow:       func(_ *ssa.Call, callee *ssa.Function, _ *eng.TraceFrame) bool { return callee.Name() != "fail" },
+			KnownResults: true,
+		}
+		paths, err := tr.Run(fn, args)
+		got := "answered"
+		if err != nil || len(paths) == 0 {
+			got = fmt.Sprintf("no paths (%v)", err)
+		}
+		for _, tp := range paths {
+			answered := false
+			for _, e := range tp.Events {
+				ci := e.Call()
+				if ci == nil || e.Followed {
+					continue
+				}
+				switch {
+				case isFail(ci):
+					answered = true
+				case isServe(ci) && answered:
+					got = "answered then forwarded"
+				case isServe(ci):
+					got = "forwarded unanswered"
+				}
+			}
+			if !answered && got == "answered" {
+				got = "not answered"
+			}
+		}
+		c.Fixture("C04.trace/"+tc.name, tc.want, got)
 	}
 }
 
@@ -1497,53 +2602,78 @@ func c04Transparent(c *eng.Ctx) {
 				}
 				n++
 				tname := eng.TypeName(named)
-				isDeleg := func(ins ssa.Instruction) bool {
-					ci, ok := ins.(*ssa.Call)
-					if !ok || !eng.MethodNameIs(ci, mn) {
+				// Decided on every enumerated path of the method with the helpers of its own package
+				// interpreted, operands resolved through the calling context: it does not matter
+				// whether the delegate is called in the method itself or in a helper it hands the
+				// slice to, nor whether the results travel through a helper's return.
+				isDelegCall := func(ci ssa.CallInstruction) bool {
+					if _, plain := ci.(*ssa.Call); !plain || !eng.MethodNameIs(ci, mn) {
 						return false
 					}
 					for _, d := range delegates {
 						if eng.FieldLoadOf(eng.Receiver(ci), tname, d) {
-							a := eng.Args(ci)
-							return len(a) == 1 && a[0] == ssa.Value(m.Params[1])
+							return true
 						}
 					}
 					return false
 				}
-				good := eng.ReachFromEntry(m, eng.PathQuery{Target: eng.IsExit, Avoid: isDeleg}) == nil
+				tr := &eng.Tracer{
+					In: &eng.Interp{W: c.W, Depth: eng.LiftDepth, MaxPaths: 1 << 12},
+					Follow: func(_ *ssa.Call, callee *ssa.Function, _ *eng.TraceFrame) bool {
+						return callee.Pkg == m.Pkg
+					},
+				}
+				paths, err := tr.Run(m, nil)
+				good := err == nil && len(paths) > 0
 				detail := "a path returns without handing the caller's own argument to the delegate (data is dropped, truncated or replaced on the way through the gateway)"
-				// exactly once
-				eng.Instrs(m, func(ins ssa.Instruction) {
-					if isDeleg(ins) && eng.ReachAfter(ins, eng.PathQuery{Target: isDeleg}) != nil {
-						good, detail = false, "the delegate is called twice on a path"
+				if err != nil {
+					detail = err.Error()
+				}
+				for pi := range paths {
+					tp := &paths[pi]
+					if tp.Panicked {
+						continue
 					}
-				})
-				// any other call of the delegate's method with a different argument
-				eng.Instrs(m, func(ins ssa.Instruction) {
-					ci, ok := ins.(*ssa.Call)
-					if !ok || !eng.MethodNameIs(ci, mn) || isDeleg(ins) {
-						return
+					if tp.LoopCut {
+						good, detail = false, "a path loops before the method returns: undecided"
+						continue
 					}
-					for _, d := range delegates {
-						if eng.FieldLoadOf(eng.Receiver(ci), tname, d) {
-							good, detail = false, "the delegate is called with something else than the caller's own argument (a re-sliced, copied or rewritten buffer / another status)"
+					var deleg *eng.TraceEvent
+					calls := 0
+					for ei := range tp.Events {
+						e := &tp.Events[ei]
+						ci := e.Call()
+						if ci == nil || !isDelegCall(ci) {
+							continue
 						}
+						calls++
+						a := eng.Args(ci)
+						if rv, _ := e.Frame.Resolve(a[0]); len(a) != 1 || rv != ssa.Value(m.Params[1]) {
+							good, detail = false, "the delegate is called with something else than the caller's own argument (a re-sliced, copied or rewritten buffer / another status)"
+							continue
+						}
+						deleg = e
 					}
-				})
-				// results are the delegate's
-				if good && mn != "WriteHeader" {
-					eng.Instrs(m, func(ins ssa.Instruction) {
-						r, ok := ins.(*ssa.Return)
-						if !ok || r.Block() == m.Recover || len(r.Results) != 2 {
-							return
+					switch {
+					case calls > 1:
+						good, detail = false, "the delegate is called twice on a path"
+					case deleg == nil:
+						good = false
+					case mn != "WriteHeader":
+						// results are the delegate's
+						r, isRet := tp.Exit.(*ssa.Return)
+						if !isRet || len(r.Results) != 2 {
+							good = false
+							break
 						}
 						for i, v := range c04Returned(r) {
-							cc, idx := eng.CallResultOf(v)
-							if cc == nil || !isDeleg(cc) || idx != i {
+							rv := c04ResolveOnPath(v, c04InFrame(tp, deleg.Frame.Root()))
+							cc, idx := eng.CallResultOf(rv)
+							if cc == nil || ssa.Instruction(cc) != deleg.Ins || idx != i {
 								good, detail = false, "the count/error returned to the caller is not the delegate's (a short or padded count makes the copier stop or continue wrongly)"
 							}
 						}
-					})
+					}
 				}
 				c.Check("R5", m, shortName(tname)+"."+mn+" is transparent", m.Pos(), good, detail)
 			}
@@ -1552,6 +2682,87 @@ func c04Transparent(c *eng.Ctx) {
 	if n < 6 {
 		c.Fail("R5", nil, "I/O wrappers on the relay path", 0, fmt.Sprintf("expected the response-writer, body-reader and flush wrappers, found %d wrapper methods", n))
 	}
+}
+
+// c04ResolveOnPath rewrites v towards the value it denotes on one traced path: conversions
+// are stripped, a cell assigned once is the assigned value, a parameter is the caller's
+// argument, the result of a helper that was interpreted is what the Return the path took
+// yields.
+func c04ResolveOnPath(v ssa.Value, cx c04Ctx) ssa.Value {
+	for i := 0; i < 32 && v != nil; i++ {
+		switch x := v.(type) {
+		case *ssa.MakeInterface:
+			v = x.X
+			continue
+		case *ssa.ChangeInterface:
+			v = x.X
+			continue
+		case *ssa.ChangeType:
+			v = x.X
+			continue
+		case *ssa.Parameter:
+			if cx != nil {
+				if a, ncx := cx.bind(x); a != nil {
+					v, cx = a, ncx
+					continue
+				}
+			}
+		case *ssa.UnOp:
+			if x.Op == token.MUL {
+				if cell, ok := x.X.(*ssa.Alloc); ok {
+					if sv := c04OnlyValue(cell); sv != nil {
+						v = sv
+						continue
+					}
+				}
+			}
+		case *ssa.Call, *ssa.Extract:
+			if cc, idx := eng.CallResultOf(v); cc != nil && cx != nil {
+				if rv, rcx := cx.ret(cc, idx); rv != nil {
+					v, cx = rv, rcx
+					continue
+				}
+			}
+		}
+		break
+	}
+	return v
+}
+
+// c04OnlyValue returns the one value ever stored into a local cell (several stores of the
+// same value count as one), nil otherwise.
+func c04OnlyValue(a *ssa.Alloc) ssa.Value {
+	if a.Referrers() == nil {
+		return nil
+	}
+	var val ssa.Value
+	for _, ref := range *a.Referrers() {
+		switch u := ref.(type) {
+		case *ssa.Store:
+			if u.Addr == ssa.Value(a) {
+				if val != nil && val != u.Val {
+					return nil
+				}
+				val = u.Val
+			}
+		case *ssa.MakeClosure:
+			// a closure capturing the cell must only read it
+			fn, _ := u.Fn.(*ssa.Function)
+			for j, b := range u.Bindings {
+				if b != ssa.Value(a) || fn == nil || j >= len(fn.FreeVars) || fn.FreeVars[j].Referrers() == nil {
+					continue
+				}
+				for _, rr := range *fn.FreeVars[j].Referrers() {
+					if ld, isLd := rr.(*ssa.UnOp); !isLd || ld.Op != token.MUL {
+						if _, isDbg := rr.(*ssa.DebugRef); !isDbg {
+							return nil
+						}
+					}
+				}
+			}
+		}
+	}
+	return val
 }
 
 // c04Returned resolves the values a Return yields, through result cells (named results and
